@@ -5,14 +5,18 @@ import CoclsModel.Mutex
 * **Logical agents.** `arun c s l` runs a list `l` of agent activities `(t, a)` (`agentStep c s t a`: the code of
   contender `a` runs on OS thread `t` up to and including its next atomic operation).  `Guarded c s l` demands of every
   activity only `canRun`: `pc a ∉ {parked, done}` and `pc a = blocked → flag a` — a parked coroutine runs again only
-  after a hand-over made it `crit`, a thread blocked in `flag.wait` only once its flag is set; *everything else may
-  run at any time on any thread*.  `Reachable c s`: `s` agrees with some `arun c (init c) l`, `l` guarded, on all fields
-  but the executor's bookkeeping `cur`/`rq`/`tmain` (never read by `agentStep`: `agentStep_exec_irrel`).
-* **Configurations.** Any `Cfg` (number of agents, kinds, rounds) with `Cfg.WF`: `co_await lock()` rounds occur only in
-  coroutines (a blocking contender's `lock().wait()` constructs a fresh `sync_awaiter`, `Pc.subInit`; a `co` round of a
-  `sync` agent would reuse a stale flag in the model, which no C++ program can do).
-* **Invariant** `Inv` (Appendix B of DESIGN.md: I1–I6 plus grant accounting), `inv_init`, one preservation lemma per
-  step (`inv_top_acq` … `inv_hand_coro`, closed clause by clause by `grind` after exposing the projections),
+  after a hand-over made it `crit`, a thread blocked in `flag.wait` (or waiting for its callback) only once its flag is
+  set; *everything else may run at any time on any thread*.  `Reachable c s`: `s` agrees with some `arun c (init c) l`,
+  `l` guarded, on all fields but the executor's bookkeeping `cur`/`rq`/`tmain` (never read by `agentStep`:
+  `agentStep_exec_irrel`).
+* **Configurations.** Any `Cfg` (number of agents, kinds, rounds): every acquisition flavour (blocking lock — also issued
+  from inside a coroutine —, `try_lock`, `co_await`, callback awaiter), every way of giving the ownership up (`release()`,
+  awaited release, destruction / assignment of an empty ownership, move into a temporary, hand-over-hand assignment of
+  the auxiliary mutex' ownership), own ownership object or the shared slot.  The agent-level invariant needs no
+  well-formedness hypothesis; the transfer to OS threads needs `Cfg.WFT` (`co_await` only in coroutines, no blocking of
+  the OS thread from inside a coroutine).
+* **Invariant** `Inv` (Appendix B of DESIGN.md: I1–I6, grant accounting, ownership objects: `heldA`/`heldO`/`heldN`/`noBad`),
+  `inv_init`, one preservation lemma per step (closed clause by clause by `grind` after exposing the projections),
   `inv_step`, `inv_arun`, `inv_reachable`.
 * **OS threads.** `threadStep_sim`/`threadStep_is_arun`: every `threadStep` of an enabled thread is a (possibly empty)
   guarded activity list (executor invariants `TInv`: who may sit in `cur`/`rq`; `LInv`: every runnable coroutine is
@@ -26,7 +30,7 @@ namespace Cocls.Mutex
 /-- owner: between acquisition and the step that gives ownership away (a blocking waiter is owner from the
     moment its flag is stored) -/
 def isOwner : Pc → Bool → Bool
-  | Pc.crit, _ | Pc.afterCs, _ | Pc.relBuild, _ | Pc.relHand, _ | Pc.build, _ => true
+  | Pc.crit, _ | Pc.critS, _ | Pc.afterCs, _ | Pc.asg, _ | Pc.relBuild, _ | Pc.relHand, _ | Pc.build, _ => true
   | Pc.waitFlag, f | Pc.blocked, f => f
   | _, _ => false
 
@@ -38,15 +42,47 @@ def isWaiting : Pc → Bool → Bool
 
 /-- granted, round not yet completed -/
 def isHolding : Pc → Bool → Bool
-  | Pc.crit, _ | Pc.afterCs, _ | Pc.relBuild, _ | Pc.relHand, _ | Pc.relDone, _ => true
+  | Pc.crit, _ | Pc.critS, _ | Pc.afterCs, _ | Pc.asg, _ | Pc.relBuild, _ | Pc.relHand, _ | Pc.relDone, _ => true
   | Pc.waitFlag, f | Pc.blocked, f => f
   | _, _ => false
 
 /-- granted, critical section of this round not yet entered -/
 def isEntering : Pc → Bool → Bool
-  | Pc.crit, _ => true
+  | Pc.crit, _ | Pc.critS, _ => true
   | Pc.waitFlag, f | Pc.blocked, f => f
   | _, _ => false
+
+/-- the agent's ownership object is armed: from the store of the granted ownership (the `crit` step; for a callback
+    contender granted as a waiter: the hand-over) to the step that starts `unlock` through the object -/
+def isArmed : Pc → Bool → Option Flavour → Bool
+  | Pc.critS, _, _ | Pc.afterCs, _, _ | Pc.asg, _, _ => true
+  | Pc.waitFlag, f, some Flavour.cb | Pc.blocked, f, some Flavour.cb => f
+  | _, _, _ => false
+
+/-- flavour / way of release / ownership object of agent `a`'s round number `r` -/
+def flR (c : Cfg) (a r : Nat) : Option Flavour := ((c.rounds a)[r]?).map (·.fl)
+def relR (c : Cfg) (a r : Nat) : Option Rel := ((c.rounds a)[r]?).map (·.rel)
+def objR (c : Cfg) (a r : Nat) : Nat :=
+  match (c.rounds a)[r]? with
+  | some rd => if rd.shared then c.n else a
+  | none => a
+
+def keyR (c : Cfg) (a r : Nat) : Nat :=
+  match flR c a r with
+  | some Flavour.co => 0
+  | some Flavour.cb => 0
+  | _ => r + 1
+
+theorem keyOf_eq (c : Cfg) (s : State) (a : Nat) : keyOf c s a = keyR c a (s.round a) := rfl
+theorem flOf_eq (c : Cfg) (s : State) (a : Nat) : flOf c s a = flR c a (s.round a) := rfl
+theorem relOf_eq (c : Cfg) (s : State) (a : Nat) : relOf c s a = relR c a (s.round a) := rfl
+theorem objOf_eq (c : Cfg) (s : State) (a : Nat) : objOf c s a = objR c a (s.round a) := rfl
+
+theorem armed_owner {p : Pc} {f : Bool} {fl : Option Flavour} (h : isArmed p f fl = true) : isOwner p f = true := by
+  cases p <;> first | (simp [isArmed] at h; done) | rfl | skip
+  all_goals (cases fl with
+    | none => simp [isArmed] at h
+    | some x => cases x <;> simp [isArmed] at h <;> simp [isOwner, h])
 
 def Owner (s : State) (a : Nat) : Prop := isOwner (s.pc a) (s.flag a) = true
 def Waiting (s : State) (a : Nat) : Prop := isWaiting (s.pc a) (s.flag a) = true
@@ -54,39 +90,52 @@ def Waiting (s : State) (a : Nat) : Prop := isWaiting (s.pc a) (s.flag a) = true
 def Listed (s : State) (a : Nat) : Prop := isWaiting (s.pc a) (s.flag a) = true ∨ s.pc a = Pc.build
 def Holding (s : State) (a : Nat) : Prop := isHolding (s.pc a) (s.flag a) = true
 def Entering (s : State) (a : Nat) : Prop := isEntering (s.pc a) (s.flag a) = true
+def Armed (c : Cfg) (s : State) (a : Nat) : Prop := isArmed (s.pc a) (s.flag a) (flOf c s a) = true
 
 instance (s a) : Decidable (Owner s a) := by unfold Owner; infer_instance
 instance (s a) : Decidable (Waiting s a) := by unfold Waiting; infer_instance
 instance (s a) : Decidable (Listed s a) := by unfold Listed; infer_instance
 instance (s a) : Decidable (Holding s a) := by unfold Holding; infer_instance
 instance (s a) : Decidable (Entering s a) := by unfold Entering; infer_instance
+instance (c s a) : Decidable (Armed c s a) := by unfold Armed; infer_instance
 
 /-- nodes above exactly one doorman at the bottom -/
 def doorEnd : List Elem → Prop
   | [] => False
   | Elem.door :: r => r = []
-  | Elem.node _ :: r => doorEnd r
+  | Elem.node _ _ :: r => doorEnd r
 
 @[simp] theorem doorEnd_nil : doorEnd [] = False := rfl
 @[simp] theorem doorEnd_door (r) : doorEnd (Elem.door :: r) = (r = []) := rfl
-@[simp] theorem doorEnd_node (a r) : doorEnd (Elem.node a :: r) = doorEnd r := rfl
+@[simp] theorem doorEnd_node (a k r) : doorEnd (Elem.node a k :: r) = doorEnd r := rfl
 /-- nodes only, the bottom one is `o`'s (the request that found the mutex free; its `_next` is null) -/
 def nodeEnd (o : Nat) : List Elem → Prop
   | [] => False
   | Elem.door :: _ => False
-  | Elem.node a :: r => (r = [] ∧ a = o) ∨ nodeEnd o r
+  | Elem.node a _ :: r => (r = [] ∧ a = o) ∨ nodeEnd o r
 
 @[simp] theorem nodeEnd_nil (o) : nodeEnd o [] = False := rfl
 @[simp] theorem nodeEnd_door (o r) : nodeEnd o (Elem.door :: r) = False := rfl
-@[simp] theorem nodeEnd_node (o a r) : nodeEnd o (Elem.node a :: r) = ((r = [] ∧ a = o) ∨ nodeEnd o r) := rfl
+@[simp] theorem nodeEnd_node (o a k r) : nodeEnd o (Elem.node a k :: r) = ((r = [] ∧ a = o) ∨ nodeEnd o r) := rfl
 @[simp] theorem nodesOf_nil : nodesOf [] = [] := rfl
 @[simp] theorem nodesOf_door (r) : nodesOf (Elem.door :: r) = [] := rfl
-@[simp] theorem nodesOf_node (a r) : nodesOf (Elem.node a :: r) = a :: nodesOf r := rfl
+@[simp] theorem nodesOf_node (a k r) : nodesOf (Elem.node a k :: r) = a :: nodesOf r := rfl
 @[simp] theorem seenOf_nil : seenOf [] = Seen.null := rfl
 @[simp] theorem seenOf_door (r) : seenOf (Elem.door :: r) = Seen.door := rfl
-@[simp] theorem seenOf_node (a r) : seenOf (Elem.node a :: r) = Seen.node a := rfl
+@[simp] theorem seenOf_node (a k r) : seenOf (Elem.node a k :: r) = Seen.node a k := rfl
 
-theorem doorEnd_iff (r : List Elem) : doorEnd r ↔ ∃ xs : List Nat, r = xs.map Elem.node ++ [Elem.door] := by
+/-- a list of awaiters `(agent, address key)` as stack nodes -/
+def nodesL (xs : List (Nat × Nat)) : List Elem := xs.map (fun p => Elem.node p.1 p.2)
+
+@[simp] theorem nodesL_nil : nodesL [] = [] := rfl
+@[simp] theorem nodesL_cons (p xs) : nodesL (p :: xs) = Elem.node p.1 p.2 :: nodesL xs := rfl
+
+theorem nodesOf_nodesL (xs : List (Nat × Nat)) (tl : List Elem) : nodesOf (nodesL xs ++ tl) = xs.map (·.1) ++ nodesOf tl := by
+  induction xs with
+  | nil => rfl
+  | cons x xs ih => simp [ih]
+
+theorem doorEnd_iff (r : List Elem) : doorEnd r ↔ ∃ xs : List (Nat × Nat), r = nodesL xs ++ [Elem.door] := by
   induction r with
   | nil => simp
   | cons e r ih =>
@@ -99,34 +148,35 @@ theorem doorEnd_iff (r : List Elem) : doorEnd r ↔ ∃ xs : List Nat, r = xs.ma
         cases xs with
         | nil => simpa using h
         | cons x xs => simp at h
-    | node a =>
+    | node a k =>
       simp only [doorEnd_node, ih]
       constructor
-      · rintro ⟨xs, h⟩; exact ⟨a :: xs, by simp [h]⟩
+      · rintro ⟨xs, h⟩; exact ⟨(a, k) :: xs, by simp [h]⟩
       · rintro ⟨xs, h⟩
         cases xs with
         | nil => simp at h
         | cons x xs => simp at h; exact ⟨xs, h.2⟩
 
-theorem nodeEnd_iff (o : Nat) (r : List Elem) : nodeEnd o r ↔ ∃ xs : List Nat, r = xs.map Elem.node ++ [Elem.node o] := by
+theorem nodeEnd_iff (o : Nat) (r : List Elem) :
+    nodeEnd o r ↔ ∃ (xs : List (Nat × Nat)) (k : Nat), r = nodesL xs ++ [Elem.node o k] := by
   induction r with
   | nil => simp
   | cons e r ih =>
     cases e with
     | door =>
       simp only [nodeEnd_door, false_iff]
-      rintro ⟨xs, h⟩
+      rintro ⟨xs, k, h⟩
       cases xs <;> simp at h
-    | node a =>
+    | node a k =>
       simp only [nodeEnd_node, ih]
       constructor
-      · rintro (⟨h1, h2⟩ | ⟨xs, h⟩)
-        · exact ⟨[], by simp [h1, h2]⟩
-        · exact ⟨a :: xs, by simp [h]⟩
-      · rintro ⟨xs, h⟩
+      · rintro (⟨h1, h2⟩ | ⟨xs, k', h⟩)
+        · exact ⟨[], k, by simp [h1, h2]⟩
+        · exact ⟨(a, k) :: xs, k', by simp [h]⟩
+      · rintro ⟨xs, k', h⟩
         cases xs with
-        | nil => simp at h; exact Or.inl ⟨h.2, h.1⟩
-        | cons x xs => simp at h; exact Or.inr ⟨xs, h.2⟩
+        | nil => simp at h; exact Or.inl ⟨h.2, h.1.1⟩
+        | cons x xs => simp at h; exact Or.inr ⟨xs, k', h.2⟩
 
 theorem seenOf_eq_null {r : List Elem} : seenOf r = Seen.null ↔ r = [] := by
   cases r with
@@ -144,7 +194,7 @@ theorem doorEnd_nodes {r : List Elem} (h : doorEnd r) (h2 : r ≠ [Elem.door]) :
   | cons x xs =>
     cases x with
     | door => simp at h; subst h; simp at h2
-    | node a => simp
+    | node a k => simp
 
 theorem mem_nodesOf_ne_nil {r : List Elem} {a : Nat} (h : a ∈ nodesOf r) : r ≠ [] := by
   cases r with
@@ -206,9 +256,13 @@ structure Inv (c : Cfg) (s : State) : Prop where
   relH : ∀ a, s.pc a = Pc.relHand → s.queue ≠ []
   /-- (I4/I5) every waiting agent (and the found-null acquirer) has exactly one node in queue ++ stack, nobody else has one -/
   cnt : ∀ x, s.queue.count x + (nodesOf s.req).count x = if Listed s x then 1 else 0
-  kindP : ∀ a, s.pc a = Pc.parked → c.kind a = AKind.coro
-  kindW : ∀ a, s.pc a = Pc.waitFlag ∨ s.pc a = Pc.blocked → c.kind a = AKind.sync
-  subF : ∀ a p, s.pc a = Pc.sub p → c.kind a = AKind.sync → s.flag a = false
+  /-- a request waits the way its flavour says: suspended coroutine / flag (callback) -/
+  kindP : ∀ a, s.pc a = Pc.parked → flOf c s a = some Flavour.co
+  kindW : ∀ a, s.pc a = Pc.waitFlag ∨ s.pc a = Pc.blocked → flOf c s a = some Flavour.lock ∨ flOf c s a = some Flavour.cb
+  subF : ∀ a p, s.pc a = Pc.sub p → flOf c s a ≠ some Flavour.co → s.flag a = false
+  subFl : ∀ a p, s.pc a = Pc.sub p →
+            flOf c s a = some Flavour.lock ∨ flOf c s a = some Flavour.cb ∨ flOf c s a = some Flavour.co
+  subI : ∀ a, s.pc a = Pc.subInit → flOf c s a = some Flavour.lock ∨ flOf c s a = some Flavour.cb
   /-- (I6) queue ++ reversed stack is in arrival order -/
   stampQ : (s.queue ++ (nodesOf s.req).reverse).Pairwise (fun x y => s.stamp x < s.stamp y)
   stampC : ∀ x, Listed s x → s.stamp x < s.clock
@@ -230,11 +284,21 @@ structure Inv (c : Cfg) (s : State) : Prop where
   bldFirst : ∀ o y, s.pc o = Pc.build → y ∈ nodesOf s.req → y ≠ o → s.stamp o < s.stamp y
   /-- (I3) found-null acquirer before its exchange: the stack is `[xk, …, x1, o]`, no doorman -/
   bldEnd : ∀ o, s.pc o = Pc.build → nodeEnd o s.req
+  /-- ownership objects: the object of an agent between the store of its ownership and the start of its `unlock` is
+      armed; whatever is armed is the object of the (unique) owner, who is in that phase; nothing is armed when nobody
+      owns the mutex; an ownership is never stored into an armed object -/
+  heldA : ∀ a, Armed c s a → s.held (objOf c s a) = true
+  heldO : ∀ o a, s.held o = true → Owner s a → Armed c s a ∧ objOf c s a = o
+  heldN : (∀ a, ¬ Owner s a) → ∀ o, s.held o = false
+  noBad : s.bad = false
+  /-- the auxiliary mutex of an agent is locked only between its hand-over-hand assignment and the end of that round -/
+  auxOk : ∀ a, s.aux a = true → relOf c s a = some Rel.g ∧
+            (s.pc a = Pc.asg ∨ s.pc a = Pc.relBuild ∨ s.pc a = Pc.relHand ∨ s.pc a = Pc.relDone)
 
 theorem inv_init (c : Cfg) : Inv c (init c) := by
-  refine ⟨?_, ?_, ?_, ?_, ?_, ?_, ?_, ?_, ?_, ?_, ?_, ?_, ?_, ?_, ?_, ?_, ?_, ?_, ?_, ?_, ?_, ?_⟩ <;>
-    simp only [init, Owner, Listed, Holding, Entering]
-  all_goals try (intro a; split <;> simp [isOwner, isWaiting, isHolding, isEntering]; done)
+  refine ⟨?_, ?_, ?_, ?_, ?_, ?_, ?_, ?_, ?_, ?_, ?_, ?_, ?_, ?_, ?_, ?_, ?_, ?_, ?_, ?_, ?_, ?_, ?_, ?_, ?_, ?_, ?_, ?_, ?_⟩ <;>
+    simp only [init, Owner, Listed, Holding, Entering, Armed]
+  all_goals try (intro a; split <;> simp [isOwner, isWaiting, isHolding, isEntering, isArmed]; done)
   all_goals first | simp; done | (intro a; split <;> simp <;> omega)
 
 /-! ## projections -/
@@ -276,16 +340,17 @@ theorem stampQ_push {st : Nat → Nat} {q l : List Nat} {a k : Nat} {L : Nat →
 set_option hygiene false in
 /-- destructure the invariant, split the goal into its clauses, expose the projections -/
 macro "inv_split" h:ident : tactic => `(tactic| (
-  obtain ⟨excl, free, door, bld, relB, relH, cnt, kindP, kindW, subF, stampQ, stampC, rnd, tryF, gr, greq, glog, incsA, incsN, failT, bldFirst, bldEnd⟩ := $h
-  refine ⟨?_, ?_, ?_, ?_, ?_, ?_, ?_, ?_, ?_, ?_, ?_, ?_, ?_, ?_, ?_, ?_, ?_, ?_, ?_, ?_, ?_, ?_⟩ <;>
-    simp only [setPc, upd_apply, Owner, Listed, Holding, Entering, curRound, List.append_nil, List.nil_append,
+  obtain ⟨excl, free, door, bld, relB, relH, cnt, kindP, kindW, subF, subFl, subI, stampQ, stampC, rnd, tryF, gr, greq, glog, incsA, incsN, failT, bldFirst, bldEnd, heldA, heldO, heldN, noBad, auxOk⟩ := $h
+  refine ⟨?_, ?_, ?_, ?_, ?_, ?_, ?_, ?_, ?_, ?_, ?_, ?_, ?_, ?_, ?_, ?_, ?_, ?_, ?_, ?_, ?_, ?_, ?_, ?_, ?_, ?_, ?_, ?_, ?_⟩ <;>
+    simp only [setPc, upd_apply, Owner, Listed, Holding, Entering, Armed, flOf_eq, relOf_eq, objOf_eq, curRound,
+      List.append_nil, List.nil_append,
       List.reverse_eq_nil_iff, List.count_append, List.count_reverse, List.count_nil, List.reverse_nil,
       List.reverse_reverse, ne_eq, count_filter_ne, nodesOf_node, nodesOf_door, nodesOf_nil] at *))
 
 /-- per-agent case analysis by `grind` -/
 macro "inv_grind" : tactic => `(tactic|
-    grind [isOwner, isWaiting, isHolding, isEntering, doorEnd_nil, nodesOf_door, nodesOf_nil, doorEnd_door,
-           doorEnd_node, nodesOf_node, nodeEnd_nil, nodeEnd_door, nodeEnd_node, Cfg.WF])
+    grind [isOwner, isWaiting, isHolding, isEntering, isArmed, doorEnd_nil, nodesOf_door, nodesOf_nil, doorEnd_door,
+           doorEnd_node, nodesOf_node, nodeEnd_nil, nodeEnd_door, nodeEnd_node, Cfg.WF, → armed_owner])
 
 macro "inv_auto" h:ident : tactic => `(tactic| (inv_split $h <;> inv_grind))
 
@@ -298,16 +363,20 @@ def Pc.neutral : Pc → Bool
 
 theorem neutral_facts {p : Pc} (f : Bool) (h : p.neutral = true) :
     isOwner p f = false ∧ isWaiting p f = false ∧ isHolding p f = false ∧ isEntering p f = false ∧
+    (∀ fl, isArmed p f fl = false) ∧ p ≠ Pc.asg ∧ p ≠ Pc.relDone ∧
     p ≠ Pc.build ∧ p ≠ Pc.relBuild ∧ p ≠ Pc.relHand ∧ p ≠ Pc.parked ∧ p ≠ Pc.waitFlag ∧ p ≠ Pc.blocked ∧
     p ≠ Pc.afterCs := by
-  cases p <;> simp [Pc.neutral, isOwner, isWaiting, isHolding, isEntering] at h ⊢
+  cases p <;> simp [Pc.neutral, isOwner, isWaiting, isHolding, isEntering, isArmed] at h ⊢
 
 /-- moving an agent between neutral pcs (no other change) -/
 theorem inv_neutral (h : Inv c s) (p : Pc) (hn : (s.pc a).neutral = true) (hp : p.neutral = true)
     (h1 : p ≠ Pc.top → p ≠ Pc.done → s.round a < (c.rounds a).length)
     (h2 : p = Pc.done → a < c.n → s.round a = (c.rounds a).length)
     (h3 : p = Pc.tryFail → ∃ r, curRound c s a = some r ∧ r.fl = Flavour.try_)
-    (h4 : ∀ q, p = Pc.sub q → c.kind a = AKind.sync → s.flag a = false) :
+    (h4 : ∀ q, p = Pc.sub q → flOf c s a ≠ some Flavour.co → s.flag a = false)
+    (h5 : ∀ q, p = Pc.sub q →
+            flOf c s a = some Flavour.lock ∨ flOf c s a = some Flavour.cb ∨ flOf c s a = some Flavour.co)
+    (h6 : p = Pc.subInit → flOf c s a = some Flavour.lock ∨ flOf c s a = some Flavour.cb) :
     Inv c (setPc s a p) := by
   have n1 := neutral_facts (s.flag a) hn
   have n2 := neutral_facts (s.flag a) hp
@@ -315,11 +384,13 @@ theorem inv_neutral (h : Inv c s) (p : Pc) (hn : (s.pc a).neutral = true) (hp : 
   clear hn hp
   inv_auto h
 
+
+
 /-! ## preservation, one lemma per step -/
 
 theorem inv_top_none (h : Inv c s) (hpc : s.pc a = Pc.top) (hr : curRound c s a = none) :
     Inv c (setPc s a Pc.done) := by
-  refine inv_neutral h _ (by simp [hpc, Pc.neutral]) rfl (by simp) ?_ (by simp) (by simp)
+  refine inv_neutral h _ (by simp [hpc, Pc.neutral]) rfl (by simp) ?_ (by simp) (by simp) (by simp) (by simp)
   intro _ _
   have := (h.rnd a).2.1
   simp only [curRound, List.getElem?_eq_none_iff] at hr
@@ -331,41 +402,54 @@ theorem inv_top_acq (h : Inv c s) (hpc : s.pc a = Pc.top) (r : Round)
                                    grantReqs := s.grantReqs ++ [(a, s.round a)] } := by
   inv_auto h
 
-theorem inv_top_fail (hwf : c.WF) (h : Inv c s) (hpc : s.pc a = Pc.top) (r : Round)
+theorem inv_top_fail (h : Inv c s) (hpc : s.pc a = Pc.top) (r : Round)
     (hr : curRound c s a = some r) :
     Inv c (setPc s a (match r.fl with
               | Flavour.try_ => Pc.tryFail
               | Flavour.lock => Pc.subInit
+              | Flavour.cb => Pc.subInit
               | Flavour.co => Pc.sub Seen.null)) := by
-  have hmem : r ∈ c.rounds a := List.mem_of_getElem? hr
-  have hco := hwf a r hmem
   have hlt : s.round a < (c.rounds a).length := by
     simp only [curRound] at hr
     exact (List.getElem?_eq_some_iff.1 hr).1
-  refine inv_neutral h _ (by simp [hpc, Pc.neutral]) ?_ (fun _ _ => hlt) ?_ ?_ ?_
+  have hfl : flOf c s a = some r.fl := by simp [flOf, hr]
+  refine inv_neutral h _ (by simp [hpc, Pc.neutral]) ?_ (fun _ _ => hlt) ?_ ?_ ?_ ?_ ?_
   · cases r.fl <;> rfl
   · cases r.fl <;> simp
   · intro e; exact ⟨r, hr, by revert e; cases r.fl <;> simp⟩
   · intro q e hk
-    cases hfl : r.fl <;> simp only [hfl] at e hco <;> simp_all
+    rw [hfl] at hk
+    cases hf : r.fl <;> simp only [hf] at e hk <;> simp_all
+  · intro q e
+    rw [hfl]
+    cases hf : r.fl <;> simp only [hf] at e <;> simp_all
+  · intro e
+    rw [hfl]
+    cases hf : r.fl <;> simp only [hf] at e <;> simp_all
 
 theorem inv_sub_fail (h : Inv c s) (p q : Seen) (hpc : s.pc a = Pc.sub p) :
     Inv c (setPc s a (Pc.sub q)) := by
   refine inv_neutral h _ (by simp [hpc, Pc.neutral]) rfl (fun _ _ => ((h.rnd a).1 (by simp [hpc]) (by simp [hpc])))
-    (by simp) (by simp) ?_
-  intro q' _ hk; exact h.subF a p hpc hk
+    (by simp) (by simp) ?_ ?_ (by simp)
+  · intro q' _ hk; exact h.subF a p hpc hk
+  · intro q' _; exact h.subFl a p hpc
 
 theorem inv_tryFail (h : Inv c s) (hpc : s.pc a = Pc.tryFail) :
     Inv c { setPc s a Pc.top with round := upd s.round a (s.round a + 1), fails := upd s.fails a (s.fails a + 1),
                                   failReqs := s.failReqs ++ [(a, s.round a)] } := by
   inv_auto h
 
-theorem inv_subInit (h : Inv c s) (hpc : s.pc a = Pc.subInit) :
-    Inv c { setPc s a (Pc.sub Seen.null) with flag := upd s.flag a false, flagNo := upd s.flagNo a (s.flagNo a + 1) } := by
+/-- (the names of the `sync_awaiter` flags are arbitrary) -/
+theorem inv_subInit (h : Inv c s) (hpc : s.pc a = Pc.subInit) (ft fi fn : Nat → Nat) :
+    Inv c { setPc s a (Pc.sub Seen.null) with flag := upd s.flag a false, flagTh := ft, flagIx := fi, flagNo := fn } := by
   inv_auto h
 
-theorem inv_waitPass (h : Inv c s) (hpc : s.pc a = Pc.waitFlag ∨ s.pc a = Pc.blocked) (hf : s.flag a = true) :
-    Inv c (setPc s a Pc.crit) := by
+theorem inv_waitPass (h : Inv c s) (hpc : s.pc a = Pc.waitFlag ∨ s.pc a = Pc.blocked) (hf : s.flag a = true)
+    (hfl : flOf c s a ≠ some Flavour.cb) : Inv c (setPc s a Pc.crit) := by
+  inv_auto h
+
+theorem inv_waitPassCb (h : Inv c s) (hpc : s.pc a = Pc.waitFlag ∨ s.pc a = Pc.blocked) (hf : s.flag a = true)
+    (hfl : flOf c s a = some Flavour.cb) : Inv c (setPc s a Pc.critS) := by
   inv_auto h
 
 theorem inv_waitBlock (h : Inv c s) (hpc : s.pc a = Pc.waitFlag) (hf : ¬ s.flag a = true) :
@@ -373,21 +457,66 @@ theorem inv_waitBlock (h : Inv c s) (hpc : s.pc a = Pc.waitFlag) (hf : ¬ s.flag
   inv_auto h
 
 theorem inv_crit (h : Inv c s) (hpc : s.pc a = Pc.crit) :
+    Inv c { setPc s a Pc.afterCs with incs := s.incs + 1, grantLog := s.grantLog ++ [a],
+                                      held := upd s.held (objOf c s a) true,
+                                      bad := s.bad || s.held (objOf c s a) } := by
+  have hnone : ∀ o, s.held o = false := by
+    intro o
+    cases ho : s.held o with
+    | false => rfl
+    | true => have := (h.heldO o a ho (by simp [Owner, hpc, isOwner])).1; simp [Armed, hpc, isArmed] at this
+  inv_auto h
+
+theorem inv_critS (h : Inv c s) (hpc : s.pc a = Pc.critS) :
     Inv c { setPc s a Pc.afterCs with incs := s.incs + 1, grantLog := s.grantLog ++ [a] } := by
   inv_auto h
 
-theorem inv_relDone (h : Inv c s) (hpc : s.pc a = Pc.relDone) :
+theorem inv_relDone (h : Inv c s) (hpc : s.pc a = Pc.relDone) (hrel : relOf c s a ≠ some Rel.g) :
     Inv c { setPc s a Pc.top with round := upd s.round a (s.round a + 1) } := by
   inv_auto h
 
-theorem inv_release (h : Inv c s) (hpc : s.pc a = Pc.afterCs) (hq : s.queue = []) (hr : s.req = [Elem.door]) :
-    Inv c { setPc { s with incs := s.incs - 1 } a Pc.relDone with req := [] } := by
-  simp only [hq, hr] at h ⊢
+theorem inv_relDoneG (h : Inv c s) (hpc : s.pc a = Pc.relDone) :
+    Inv c { setPc s a Pc.top with round := upd s.round a (s.round a + 1), aux := upd s.aux a false } := by
   inv_auto h
 
-theorem inv_relSlow (h : Inv c s) (hpc : s.pc a = Pc.afterCs) (hq : s.queue = []) (hr : s.req ≠ [Elem.door]) :
-    Inv c (setPc { s with incs := s.incs - 1 } a Pc.relBuild) := by
-  have hd := doorEnd_nodes (h.door a (by simp [Owner, hpc, isOwner]) (by simp [hpc])) hr
+theorem inv_afterCsG (h : Inv c s) (hpc : s.pc a = Pc.afterCs) (hrel : relOf c s a = some Rel.g) :
+    Inv c { setPc { s with incs := s.incs - 1 } a Pc.asg with aux := upd s.aux a true } := by
+  inv_auto h
+
+/-- facts about the owner that starts `unlock` through its ownership object -/
+theorem Inv.unlock_facts (h : Inv c s) (hpc : s.pc a = Pc.afterCs ∨ s.pc a = Pc.asg) :
+    s.held (objOf c s a) = true ∧ ∀ o, upd s.held (objOf c s a) false o = false := by
+  have harm : Armed c s a := by rcases hpc with e | e <;> simp [Armed, e, isArmed]
+  have hown : Owner s a := by rcases hpc with e | e <;> simp [Owner, e, isOwner]
+  refine ⟨h.heldA a harm, ?_⟩
+  intro o
+  by_cases ho : o = objOf c s a
+  · simp [ho]
+  · rw [upd_other _ _ _ _ ho]
+    cases hh : s.held o with
+    | false => rfl
+    | true => exact absurd (h.heldO o a hh hown).2.symm ho
+
+theorem Inv.relHand_facts (h : Inv c s) (hpc : s.pc a = Pc.relHand) : ∀ o, s.held o = false := by
+  intro o
+  cases hh : s.held o with
+  | false => rfl
+  | true => have := (h.heldO o a hh (by simp [Owner, hpc, isOwner])).1; simp [Armed, hpc, isArmed] at this
+
+theorem inv_release (h : Inv c s) (hpc : s.pc a = Pc.afterCs ∨ s.pc a = Pc.asg) (hq : s.queue = [])
+    (hr : s.req = [Elem.door]) (k : Nat) (hk : k = if s.pc a = Pc.afterCs then s.incs - 1 else s.incs)
+    (hd : Nat → Bool) (hhd : ∀ o, hd o = false) :
+    Inv c { setPc { s with incs := k, held := hd } a Pc.relDone with req := [] } := by
+  subst hk
+  inv_auto h
+
+theorem inv_relSlow (h : Inv c s) (hpc : s.pc a = Pc.afterCs ∨ s.pc a = Pc.asg) (hq : s.queue = [])
+    (hr : s.req ≠ [Elem.door]) (k : Nat) (hk : k = if s.pc a = Pc.afterCs then s.incs - 1 else s.incs)
+    (hd : Nat → Bool) (hhd : ∀ o, hd o = false) :
+    Inv c (setPc { s with incs := k, held := hd } a Pc.relBuild) := by
+  subst hk
+  have hd := doorEnd_nodes (h.door a (by rcases hpc with e | e <;> simp [Owner, e, isOwner])
+    (by rcases hpc with e | e <;> simp [e])) hr
   inv_auto h
 
 theorem inv_relBuild (h : Inv c s) (hpc : s.pc a = Pc.relBuild) :
@@ -404,26 +533,29 @@ theorem inv_build (h : Inv c s) (hpc : s.pc a = Pc.build) :
   simp only [hq] at h ⊢
   inv_auto h
 
-theorem inv_sub_null (h : Inv c s) (p : Seen) (hpc : s.pc a = Pc.sub p) (hr : s.req = []) (cu : Nat → Option Nat) :
-    Inv c { setPc s a Pc.build with req := Elem.node a :: s.req, stamp := upd s.stamp a s.clock,
+theorem inv_sub_null (h : Inv c s) (p : Seen) (hpc : s.pc a = Pc.sub p) (hr : s.req = []) (k : Nat)
+    (cu : Nat → Option Nat) :
+    Inv c { setPc s a Pc.build with req := Elem.node a k :: s.req, stamp := upd s.stamp a s.clock,
                                     clock := s.clock + 1, cur := cu } := by
   simp only [hr] at h ⊢
   inv_auto h
 
-theorem inv_sub_sync (h : Inv c s) (p : Seen) (hpc : s.pc a = Pc.sub p) (hr : s.req ≠ []) (hk : c.kind a = AKind.sync)
-    (cu : Nat → Option Nat) :
-    Inv c { setPc s a Pc.waitFlag with req := Elem.node a :: s.req, stamp := upd s.stamp a s.clock,
+theorem inv_sub_wait (h : Inv c s) (p : Seen) (hpc : s.pc a = Pc.sub p) (hr : s.req ≠ [])
+    (hfl : flOf c s a ≠ some Flavour.co) (k : Nat) (cu : Nat → Option Nat) :
+    Inv c { setPc s a Pc.waitFlag with req := Elem.node a k :: s.req, stamp := upd s.stamp a s.clock,
                                        clock := s.clock + 1, cur := cu } := by
+  have hf := h.subF a p hpc hfl
+  have hf2 := h.subFl a p hpc
   inv_split h
-  case refine_11 => exact stampQ_push cnt stampC (by simp [hpc, isWaiting]) stampQ
+  case refine_13 => exact stampQ_push cnt stampC (by simp [hpc, isWaiting]) stampQ
   all_goals inv_grind
 
-theorem inv_sub_coro (h : Inv c s) (p : Seen) (hpc : s.pc a = Pc.sub p) (hr : s.req ≠ []) (hk : c.kind a = AKind.coro)
-    (cu : Nat → Option Nat) :
-    Inv c { setPc s a Pc.parked with req := Elem.node a :: s.req, stamp := upd s.stamp a s.clock,
+theorem inv_sub_park (h : Inv c s) (p : Seen) (hpc : s.pc a = Pc.sub p) (hr : s.req ≠ [])
+    (hfl : flOf c s a = some Flavour.co) (k : Nat) (cu : Nat → Option Nat) :
+    Inv c { setPc s a Pc.parked with req := Elem.node a k :: s.req, stamp := upd s.stamp a s.clock,
                                      clock := s.clock + 1, cur := cu } := by
   inv_split h
-  case refine_11 => exact stampQ_push cnt stampC (by simp [hpc, isWaiting]) stampQ
+  case refine_13 => exact stampQ_push cnt stampC (by simp [hpc, isWaiting]) stampQ
   all_goals inv_grind
 
 theorem Inv.head_facts (h : Inv c s) {b : Nat} {rest : List Nat} (hq : s.queue = b :: rest) :
@@ -435,63 +567,123 @@ theorem Inv.head_facts (h : Inv c s) {b : Nat} {rest : List Nat} (hq : s.queue =
   · rename_i hw; exact ⟨hw, hnb, by omega, by omega⟩
   · omega
 
-theorem inv_hand_sync (h : Inv c s) (hpc : s.pc a = Pc.afterCs ∨ s.pc a = Pc.relHand) (b : Nat) (rest : List Nat)
-    (hq : s.queue = b :: rest) (hk : c.kind b = AKind.sync) (k : Nat)
-    (hk' : k = if s.pc a = Pc.afterCs then s.incs - 1 else s.incs) :
-    Inv c { setPc { s with incs := k, queue := rest,
+/-- the head of the queue is a request waiting the way its flavour says -/
+theorem Inv.head_wait (h : Inv c s) {b : Nat} {rest : List Nat} (hq : s.queue = b :: rest) :
+    (flOf c s b = some Flavour.co → s.pc b = Pc.parked) ∧
+    (flOf c s b ≠ some Flavour.co → (s.pc b = Pc.waitFlag ∨ s.pc b = Pc.blocked) ∧ s.flag b = false) := by
+  obtain ⟨hw, _, _, _⟩ := h.head_facts hq
+  have hkp := h.kindP b
+  have hkw := h.kindW b
+  generalize s.pc b = pb at *
+  constructor
+  · intro hf; cases pb <;> simp_all [isWaiting]
+  · intro hf
+    cases pb <;> simp_all [isWaiting]
+
+set_option maxHeartbeats 1000000 in
+theorem inv_hand_flag (h : Inv c s) (hpc : s.pc a = Pc.afterCs ∨ s.pc a = Pc.asg ∨ s.pc a = Pc.relHand)
+    (b : Nat) (rest : List Nat) (hq : s.queue = b :: rest)
+    (hfl : flOf c s b ≠ some Flavour.co) (hfl2 : flOf c s b ≠ some Flavour.cb) (k : Nat)
+    (hk' : k = if s.pc a = Pc.afterCs then s.incs - 1 else s.incs) (hd : Nat → Bool) (hhd : ∀ o, hd o = false) :
+    Inv c { setPc { s with incs := k, held := hd, queue := rest,
                            grants := upd s.grants b (s.grants b + 1),
                            grantReqs := s.grantReqs ++ [(b, s.round b)] } a Pc.relDone with
             flag := upd s.flag b true } := by
   subst hk'
   obtain ⟨hw, hnb, hc1, hc2⟩ := h.head_facts hq
-  have hb : (s.pc b = Pc.waitFlag ∨ s.pc b = Pc.blocked) ∧ s.flag b = false := by
-    have hkp := h.kindP b
-    generalize s.pc b = pb at *
-    cases pb <;> simp_all [isWaiting]
-  have hba : b ≠ a := by rintro rfl; rcases hpc with e | e <;> simp [e, isWaiting] at hw
+  have hb := (h.head_wait hq).2 hfl
+  have hba : b ≠ a := by rintro rfl; rcases hpc with e | e | e <;> simp [e, isWaiting] at hw
   inv_auto h
 
-theorem inv_hand_coro (h : Inv c s) (hpc : s.pc a = Pc.afterCs ∨ s.pc a = Pc.relHand) (b : Nat) (rest : List Nat)
-    (hq : s.queue = b :: rest) (hk : c.kind b = AKind.coro) (cu : Nat → Option Nat) (r : Nat → List Nat) (k : Nat)
-    (hk' : k = if s.pc a = Pc.afterCs then s.incs - 1 else s.incs) :
-    Inv c { setPc (setPc { s with incs := k, queue := rest,
+set_option maxHeartbeats 1000000 in
+theorem inv_hand_cb (h : Inv c s) (hpc : s.pc a = Pc.afterCs ∨ s.pc a = Pc.asg ∨ s.pc a = Pc.relHand)
+    (b : Nat) (rest : List Nat) (hq : s.queue = b :: rest)
+    (hfl : flOf c s b = some Flavour.cb) (k : Nat)
+    (hk' : k = if s.pc a = Pc.afterCs then s.incs - 1 else s.incs) (hd : Nat → Bool) (hhd : ∀ o, hd o = false) :
+    Inv c { setPc { s with incs := k, held := hd, queue := rest,
+                           grants := upd s.grants b (s.grants b + 1),
+                           grantReqs := s.grantReqs ++ [(b, s.round b)] } a Pc.relDone with
+            flag := upd s.flag b true, held := upd hd (objOf c s b) true, bad := s.bad || hd (objOf c s b) } := by
+  subst hk'
+  obtain ⟨hw, hnb, hc1, hc2⟩ := h.head_facts hq
+  have hb := (h.head_wait hq).2 (by rw [hfl]; simp)
+  have hba : b ≠ a := by rintro rfl; rcases hpc with e | e | e <;> simp [e, isWaiting] at hw
+  have hbd : hd (objOf c s b) = false := hhd _
+  inv_auto h
+
+set_option maxHeartbeats 1000000 in
+theorem inv_hand_co (h : Inv c s) (hpc : s.pc a = Pc.afterCs ∨ s.pc a = Pc.asg ∨ s.pc a = Pc.relHand)
+    (b : Nat) (rest : List Nat) (hq : s.queue = b :: rest)
+    (hfl : flOf c s b = some Flavour.co) (cu : Nat → Option Nat) (r : Nat → List Nat) (k : Nat)
+    (hk' : k = if s.pc a = Pc.afterCs then s.incs - 1 else s.incs) (hd : Nat → Bool) (hhd : ∀ o, hd o = false) :
+    Inv c { setPc (setPc { s with incs := k, held := hd, queue := rest,
                                   grants := upd s.grants b (s.grants b + 1),
                                   grantReqs := s.grantReqs ++ [(b, s.round b)] } b Pc.crit) a Pc.relDone with
             cur := cu, rq := r } := by
   subst hk'
   obtain ⟨hw, hnb, hc1, hc2⟩ := h.head_facts hq
-  have hb : s.pc b = Pc.parked := by
-    have hkp := h.kindW b
-    generalize s.pc b = pb at *
-    cases pb <;> simp_all [isWaiting]
-  have hba : b ≠ a := by rintro rfl; rcases hpc with e | e <;> simp [e, isWaiting] at hw
+  have hb := (h.head_wait hq).1 hfl
+  have hba : b ≠ a := by rintro rfl; rcases hpc with e | e | e <;> simp [e, isWaiting] at hw
   inv_auto h
 
-theorem inv_handOver (h : Inv c s) (hpc : s.pc a = Pc.afterCs ∨ s.pc a = Pc.relHand) (t k : Nat)
-    (hk : k = if s.pc a = Pc.afterCs then s.incs - 1 else s.incs) (hq : s.queue ≠ []) :
-    Inv c (handOver c { s with incs := k } t a).1 := by
+theorem inv_handOver (h : Inv c s) (hpc : s.pc a = Pc.afterCs ∨ s.pc a = Pc.asg ∨ s.pc a = Pc.relHand) (t k : Nat)
+    (hk : k = if s.pc a = Pc.afterCs then s.incs - 1 else s.incs) (hd : Nat → Bool) (hhd : ∀ o, hd o = false)
+    (hq : s.queue ≠ []) :
+    Inv c (handOver c { s with incs := k, held := hd } t a).1 := by
   unfold handOver
   cases hq' : s.queue with
   | nil => exact absurd hq' hq
   | cons b rest =>
     dsimp only
-    cases hkb : c.kind b with
-    | sync => exact inv_hand_sync h hpc b rest hq' hkb k hk
-    | coro =>
-      simp only []
-      cases hka : c.kind a with
-      | sync => exact inv_hand_coro h hpc b rest hq' hkb _ _ k hk
-      | coro =>
-        simp only []
-        split
-        · exact inv_hand_coro h hpc b rest hq' hkb _ _ k hk
-        · exact inv_hand_coro h hpc b rest hq' hkb _ _ k hk
+    cases hfb : flOf c s b with
+    | none =>
+      have e : flOf c { s with incs := k, held := hd, queue := rest, grants := upd s.grants b (s.grants b + 1),
+                               grantReqs := s.grantReqs ++ [(b, s.round b)] } b = none := hfb
+      simp only [e]
+      exact inv_hand_flag h hpc b rest hq' (by rw [hfb]; simp) (by rw [hfb]; simp) k hk hd hhd
+    | some f =>
+      have e : flOf c { s with incs := k, held := hd, queue := rest, grants := upd s.grants b (s.grants b + 1),
+                               grantReqs := s.grantReqs ++ [(b, s.round b)] } b = some f := hfb
+      simp only [e]
+      cases f with
+      | lock => exact inv_hand_flag h hpc b rest hq' (by rw [hfb]; simp) (by rw [hfb]; simp) k hk hd hhd
+      | try_ => exact inv_hand_flag h hpc b rest hq' (by rw [hfb]; simp) (by rw [hfb]; simp) k hk hd hhd
+      | cb => exact inv_hand_cb h hpc b rest hq' hfb k hk hd hhd
+      | co =>
+        dsimp only
+        cases hka : c.kind a with
+        | sync => exact inv_hand_co h hpc b rest hq' hfb _ _ k hk hd hhd
+        | coro =>
+          dsimp only
+          split
+          · exact inv_hand_co h hpc b rest hq' hfb _ _ k hk hd hhd
+          · exact inv_hand_co h hpc b rest hq' hfb _ _ k hk hd hhd
+
+theorem inv_unlockStart (h : Inv c s) (hpc : s.pc a = Pc.afterCs ∨ s.pc a = Pc.asg) (t k : Nat)
+    (hk : k = if s.pc a = Pc.afterCs then s.incs - 1 else s.incs) :
+    Inv c (unlockStart c { s with incs := k } t a).1 := by
+  obtain ⟨hheld, hnone⟩ := h.unlock_facts hpc
+  have hpc3 : s.pc a = Pc.afterCs ∨ s.pc a = Pc.asg ∨ s.pc a = Pc.relHand := by
+    rcases hpc with e | e
+    · exact Or.inl e
+    · exact Or.inr (Or.inl e)
+  unfold unlockStart
+  have e1 : ({ s with incs := k } : State).held (objOf c { s with incs := k } a) = true := hheld
+  rw [if_neg (by rw [e1]; simp)]
+  dsimp only
+  split
+  · rename_i hq
+    split
+    · rename_i hr
+      exact inv_release h hpc hq hr k hk _ hnone
+    · rename_i hr
+      exact inv_relSlow h hpc hq hr k hk _ hnone
+  · rename_i hq
+    exact inv_handOver h hpc3 t k hk _ hnone (by simpa using hq)
 
 /-! ## every activity preserves the invariant -/
 
-theorem inv_incs_eta (h : Inv c s) : Inv c { s with incs := s.incs } := h
-
-theorem inv_step (hwf : c.WF) (h : Inv c s) (t : Nat) (hg : canRun s a = true) : Inv c (agentStep c s t a).1 := by
+theorem inv_step (h : Inv c s) (t : Nat) (hg : canRun s a = true) : Inv c (agentStep c s t a).1 := by
   unfold agentStep
   split
   · exact h
@@ -503,9 +695,13 @@ theorem inv_step (hwf : c.WF) (h : Inv c s) (t : Nat) (hg : canRun s a = true) :
     · rename_i r hr
       split
       · rename_i hq; exact inv_top_acq h hpc r hr hq
-      · exact inv_top_fail hwf h hpc r hr
+      · exact inv_top_fail h hpc r hr
   · rename_i hpc; exact inv_tryFail h hpc
-  · rename_i hpc; exact inv_subInit h hpc
+  · -- subInit
+    rename_i hpc
+    split
+    · exact inv_subInit h hpc _ _ _
+    · exact inv_subInit h hpc _ _ _
   · -- sub
     rename_i prev hpc
     split
@@ -513,37 +709,50 @@ theorem inv_step (hwf : c.WF) (h : Inv c s) (t : Nat) (hg : canRun s a = true) :
       by_cases hp : prev = Seen.null
       · subst hp
         simp only [if_true]
-        exact inv_sub_null h _ hpc (seenOf_eq_null.1 hseen) _
+        exact inv_sub_null h _ hpc (seenOf_eq_null.1 hseen) _ _
       · have hr : s.req ≠ [] := fun e => hp (by rw [← hseen, e]; rfl)
         simp only [hp, if_false]
-        cases hk : c.kind a with
-        | sync => exact inv_sub_sync h _ hpc hr hk _
-        | coro => exact inv_sub_coro h _ hpc hr hk _
+        split
+        · rename_i hfl; exact inv_sub_park h _ hpc hr hfl _ _
+        · rename_i hfl; exact inv_sub_wait h _ hpc hr (fun e => hfl e) _ _
     · exact inv_sub_fail h _ _ hpc
   · rename_i hpc; exact inv_build h hpc
-  · rename_i hpc
+  · -- waitFlag
+    rename_i hpc
     split
-    · rename_i hf; exact inv_waitPass h (Or.inl hpc) hf
-    · rename_i hf; exact inv_waitBlock h hpc hf
-  · rename_i hpc
+    · rename_i hfl
+      split
+      · rename_i hf; exact inv_waitPassCb h (Or.inl hpc) hf hfl
+      · rename_i hf; exact inv_waitBlock h hpc hf
+    · rename_i hfl
+      split
+      · rename_i hf; exact inv_waitPass h (Or.inl hpc) hf hfl
+      · rename_i hf; exact inv_waitBlock h hpc hf
+  · -- blocked
+    rename_i hpc
     have hf : s.flag a = true := by simpa [canRun, hpc] using hg
-    exact inv_waitPass h (Or.inr hpc) hf
+    split
+    · rename_i hfl; exact inv_waitPassCb h (Or.inr hpc) hf hfl
+    · rename_i hfl; exact inv_waitPass h (Or.inr hpc) hf hfl
   · rename_i hpc; exact inv_crit h hpc
+  · rename_i hpc; exact inv_critS h hpc
   · -- afterCs
     rename_i hpc
     dsimp only
     split
-    · rename_i hq
-      split
-      · rename_i hr; exact inv_release h hpc hq hr
-      · rename_i hr; exact inv_relSlow h hpc hq hr
-    · rename_i hq
-      exact inv_handOver h (Or.inl hpc) t (s.incs - 1) (by simp [hpc]) (by simpa using hq)
+    · rename_i hrel; exact inv_afterCsG h hpc hrel
+    · exact inv_unlockStart h (Or.inl hpc) t (s.incs - 1) (by simp [hpc])
+  · -- asg
+    rename_i hpc
+    exact inv_unlockStart h (Or.inr hpc) t s.incs (by simp [hpc])
   · rename_i hpc; exact inv_relBuild h hpc
   · rename_i hpc
-    have := inv_handOver h (Or.inr hpc) t s.incs (by simp [hpc]) (h.relH a hpc)
-    exact this
-  · rename_i hpc; exact inv_relDone h hpc
+    exact inv_handOver h (Or.inr (Or.inr hpc)) t s.incs (by simp [hpc]) s.held (h.relHand_facts hpc) (h.relH a hpc)
+  · -- relDone
+    rename_i hpc
+    split
+    · exact inv_relDoneG h hpc
+    · rename_i hrel; exact inv_relDone h hpc (fun e => hrel e)
 
 /-! ## the executor's bookkeeping is irrelevant -/
 
@@ -551,34 +760,40 @@ theorem handOver_exec_irrel (c : Cfg) (s : State) (t a : Nat) (cu : Nat → Opti
     core (handOver c { s with cur := cu, rq := r, tmain := tm } t a).1 = core (handOver c s t a).1 ∧
     (handOver c { s with cur := cu, rq := r, tmain := tm } t a).2 = (handOver c s t a).2 := by
   unfold handOver
-  dsimp only
-  cases hq : s.queue with
-  | nil => simp [core, setPc, hq]
-  | cons b rest =>
+  simp only [flOf_eq, relOf_eq, objOf_eq, setPc]
+  split <;> (try split) <;> (try split) <;> (try split) <;> simp_all [core]
+
+theorem unlockStart_exec_irrel (c : Cfg) (s : State) (t a : Nat) (cu : Nat → Option Nat) (r : Nat → List Nat) (tm : Nat → TMain) :
+    core (unlockStart c { s with cur := cu, rq := r, tmain := tm } t a).1 = core (unlockStart c s t a).1 ∧
+    (unlockStart c { s with cur := cu, rq := r, tmain := tm } t a).2 = (unlockStart c s t a).2 := by
+  unfold unlockStart
+  have e : objOf c { s with cur := cu, rq := r, tmain := tm } a = objOf c s a := rfl
+  rw [e]
+  by_cases hh : s.held (objOf c s a) = false
+  · rw [if_pos hh, if_pos hh]; simp [core, setPc]
+  · rw [if_neg hh, if_neg hh]
     dsimp only
-    cases c.kind b with
-    | sync => simp [core, setPc]
-    | coro =>
-      dsimp only
-      cases c.kind a with
-      | sync => simp [core, setPc]
-      | coro =>
-        dsimp only [curRound, setPc]
-        split <;> simp [core]
+    split
+    · split <;> simp_all [core, setPc]
+    · exact handOver_exec_irrel c { s with held := upd s.held (objOf c s a) false } t a cu r tm
 
 theorem agentStep_exec_irrel (c : Cfg) (s : State) (t a : Nat) (cu : Nat → Option Nat) (r : Nat → List Nat) (tm : Nat → TMain) :
     core (agentStep c { s with cur := cu, rq := r, tmain := tm } t a).1 = core (agentStep c s t a).1 ∧
     (agentStep c { s with cur := cu, rq := r, tmain := tm } t a).2 = (agentStep c s t a).2 := by
   unfold agentStep
-  dsimp only [curRound]
+  simp only [flOf_eq, relOf_eq, objOf_eq, keyOf_eq, curRound]
   split
-  case h_11 =>
+  case h_12 =>
     split
-    · split <;> simp_all [core, setPc]
-    · exact handOver_exec_irrel c { s with incs := s.incs - 1 } t a cu r tm
-  case h_13 => exact handOver_exec_irrel c s t a cu r tm
-  all_goals (try split) <;> (try split) <;> (try split) <;> simp_all [core, setPc]
-
+    · simp [core, setPc]
+    · exact unlockStart_exec_irrel c { s with incs := s.incs - 1 } t a cu r tm
+  case h_13 => exact unlockStart_exec_irrel c s t a cu r tm
+  case h_15 => exact handOver_exec_irrel c s t a cu r tm
+  case h_8 =>
+    by_cases hcb : flR c a (s.round a) = some Flavour.cb <;> by_cases hf : s.flag a = true <;>
+      simp [hcb, hf, core, setPc]
+  case h_9 => by_cases hcb : flR c a (s.round a) = some Flavour.cb <;> simp [hcb, core, setPc]
+  all_goals ((repeat' split) <;> simp_all [core, setPc])
 
 theorem agentStep_core_congr (c : Cfg) {s1 s2 : State} (t a : Nat) (h : core s1 = core s2) :
     core (agentStep c s1 t a).1 = core (agentStep c s2 t a).1 ∧ (agentStep c s1 t a).2 = (agentStep c s2 t a).2 := by
@@ -596,29 +811,29 @@ theorem canRun_core_congr {s1 s2 : State} (a : Nat) (h : core s1 = core s2) : ca
   rw [hp, hf]
 
 theorem inv_core (h : Inv c s) : Inv c (core s) :=
-  ⟨h.excl, h.free, h.door, h.bld, h.relB, h.relH, h.cnt, h.kindP, h.kindW, h.subF, h.stampQ, h.stampC, h.rnd, h.tryF,
-   h.gr, h.greq, h.glog, h.incsA, h.incsN, h.failT, h.bldFirst, h.bldEnd⟩
+  ⟨h.excl, h.free, h.door, h.bld, h.relB, h.relH, h.cnt, h.kindP, h.kindW, h.subF, h.subFl, h.subI, h.stampQ, h.stampC, h.rnd, h.tryF,
+   h.gr, h.greq, h.glog, h.incsA, h.incsN, h.failT, h.bldFirst, h.bldEnd, h.heldA, h.heldO, h.heldN, h.noBad, h.auxOk⟩
 
 theorem inv_of_core (h : Inv c (core s)) : Inv c s :=
-  ⟨h.excl, h.free, h.door, h.bld, h.relB, h.relH, h.cnt, h.kindP, h.kindW, h.subF, h.stampQ, h.stampC, h.rnd, h.tryF,
-   h.gr, h.greq, h.glog, h.incsA, h.incsN, h.failT, h.bldFirst, h.bldEnd⟩
+  ⟨h.excl, h.free, h.door, h.bld, h.relB, h.relH, h.cnt, h.kindP, h.kindW, h.subF, h.subFl, h.subI, h.stampQ, h.stampC, h.rnd, h.tryF,
+   h.gr, h.greq, h.glog, h.incsA, h.incsN, h.failT, h.bldFirst, h.bldEnd, h.heldA, h.heldO, h.heldN, h.noBad, h.auxOk⟩
 
 theorem inv_core_congr {s1 s2 : State} (e : core s1 = core s2) (h : Inv c s1) : Inv c s2 :=
   inv_of_core (e ▸ inv_core h)
 
 /-! ## runs -/
 
-theorem inv_arun (hwf : c.WF) : ∀ (l : List (Nat × Nat)) (s : State), Inv c s → Guarded c s l → Inv c (arun c s l) := by
+theorem inv_arun : ∀ (l : List (Nat × Nat)) (s : State), Inv c s → Guarded c s l → Inv c (arun c s l) := by
   intro l
   induction l with
   | nil => intro s h _; exact h
   | cons p l ih =>
     intro s h hg
-    exact ih _ (inv_step hwf h p.1 hg.1) hg.2
+    exact ih _ (inv_step h p.1 hg.1) hg.2
 
-theorem inv_reachable (hwf : c.WF) (hs : Reachable c s) : Inv c s := by
+theorem inv_reachable (hs : Reachable c s) : Inv c s := by
   obtain ⟨l, hg, e⟩ := hs
-  exact inv_core_congr e.symm (inv_arun hwf l _ (inv_init c) hg)
+  exact inv_core_congr e.symm (inv_arun l _ (inv_init c) hg)
 
 theorem reachable_init (c : Cfg) : Reachable c (init c) := ⟨[], trivial, rfl⟩
 
@@ -659,160 +874,253 @@ theorem reachable_core_congr {s1 s2 : State} (e : core s1 = core s2) (hs : Reach
 
 /-! ## hand-over -/
 
+/-- agent `x`'s next activity enters `unlock` past its fast path (if the queue is not empty it hands the lock over) -/
+def unlocking (c : Cfg) (s : State) (x : Nat) : Prop :=
+  (s.pc x = Pc.afterCs ∧ relOf c s x ≠ some Rel.g ∧ s.held (objOf c s x) = true) ∨
+  (s.pc x = Pc.asg ∧ s.held (objOf c s x) = true) ∨ s.pc x = Pc.relHand
+
+instance (c s x) : Decidable (unlocking c s x) := by unfold unlocking; infer_instance
+
 /-- whom agent `x`'s next activity hands the lock to -/
-def grantee (s : State) (x : Nat) : Option Nat :=
-  if s.pc x = Pc.afterCs ∨ s.pc x = Pc.relHand then s.queue.head? else none
+def grantee (c : Cfg) (s : State) (x : Nat) : Option Nat :=
+  if unlocking c s x then s.queue.head? else none
 
 theorem handOver_spec (c : Cfg) (s : State) (t x b : Nat) (rest : List Nat) (hq : s.queue = b :: rest) :
     (handOver c s t x).1.queue = rest ∧ (handOver c s t x).1.req = s.req ∧
     (handOver c s t x).1.grants = upd s.grants b (s.grants b + 1) ∧
     (handOver c s t x).1.stamp = s.stamp ∧ (handOver c s t x).1.clock = s.clock ∧
-    (handOver c s t x).1.pc = (if c.kind b = AKind.coro then upd (upd s.pc b Pc.crit) x Pc.relDone else upd s.pc x Pc.relDone) ∧
-    (handOver c s t x).1.flag = (if c.kind b = AKind.sync then upd s.flag b true else s.flag) := by
+    (handOver c s t x).1.pc = (if flOf c s b = some Flavour.co then upd (upd s.pc b Pc.crit) x Pc.relDone
+                               else upd s.pc x Pc.relDone) ∧
+    (handOver c s t x).1.flag = (if flOf c s b = some Flavour.co then s.flag else upd s.flag b true) ∧
+    (handOver c s t x).1.round = s.round ∧
+    (handOver c s t x).1.held = (if flOf c s b = some Flavour.cb then upd s.held (objOf c s b) true else s.held) := by
   unfold handOver
-  simp only [hq]
-  cases hkb : c.kind b with
-  | sync => simp [setPc]
-  | coro =>
-    simp only []
-    cases hka : c.kind x with
-    | sync => simp [setPc]
-    | coro =>
-      simp only []
-      split <;> simp [setPc]
+  simp only [hq, flOf_eq, relOf_eq, objOf_eq]
+  split <;> (try split) <;> (try split) <;> simp_all [setPc]
 
-theorem step_handOver (c : Cfg) (s : State) (t x b : Nat) (hg : grantee s x = some b) :
-    ∃ k, (agentStep c s t x).1 = (handOver c { s with incs := k } t x).1 ∧ ∃ rest, s.queue = b :: rest := by
+theorem handOver_nil (c : Cfg) (s : State) (t x : Nat) (hq : s.queue = []) :
+    (handOver c s t x).1 = setPc s x Pc.relDone := by
+  unfold handOver; simp only [hq]
+
+theorem agentStep_afterCs_g (c : Cfg) (s : State) (t x : Nat) (hA : s.pc x = Pc.afterCs) (hg : relOf c s x = some Rel.g) :
+    agentStep c s t x = ({ setPc { s with incs := s.incs - 1 } x Pc.asg with aux := upd s.aux x true },
+                         [Ev.auxCas t x true], Outcome.op) := by
+  unfold agentStep
+  simp only [hA]
+  have e : relOf c { s with incs := s.incs - 1 } x = relOf c s x := rfl
+  rw [e, hg]
+
+theorem agentStep_afterCs_ng (c : Cfg) (s : State) (t x : Nat) (hA : s.pc x = Pc.afterCs) (hg : relOf c s x ≠ some Rel.g) :
+    agentStep c s t x = unlockStart c { s with incs := s.incs - 1 } t x := by
+  unfold agentStep
+  simp only [hA]
+  have e : relOf c { s with incs := s.incs - 1 } x = relOf c s x := rfl
+  rw [e]
+  split
+  · rename_i h; exact absurd h hg
+  · rfl
+
+theorem agentStep_asg (c : Cfg) (s : State) (t x : Nat) (hS : s.pc x = Pc.asg) :
+    agentStep c s t x = unlockStart c s t x := by
+  unfold agentStep; simp only [hS]
+
+theorem agentStep_relHand (c : Cfg) (s : State) (t x : Nat) (hR : s.pc x = Pc.relHand) :
+    agentStep c s t x = handOver c s t x := by
+  unfold agentStep; simp only [hR]
+
+theorem unlockStart_cons (c : Cfg) (s : State) (t x b : Nat) (rest : List Nat) (hh : s.held (objOf c s x) = true)
+    (hq : s.queue = b :: rest) :
+    unlockStart c s t x = handOver c { s with held := upd s.held (objOf c s x) false } t x := by
+  unfold unlockStart
+  rw [if_neg (by simp [hh])]
+  simp only [hq]
+
+/-- effect of an activity of `x` on the other agents -/
+structure Frame (c : Cfg) (s s' : State) (x : Nat) (g : Option Nat) : Prop where
+  pc : ∀ a, a ≠ x → s'.pc a = if g = some a ∧ flOf c s a = some Flavour.co then Pc.crit else s.pc a
+  flag : ∀ a, a ≠ x → s'.flag a = if g = some a ∧ flOf c s a ≠ some Flavour.co then true else s.flag a
+  grants : ∀ a, a ≠ x → s'.grants a = if g = some a then s.grants a + 1 else s.grants a
+  round : ∀ a, a ≠ x → s'.round a = s.round a
+
+theorem frame_none {s' : State} {x : Nat} (hp : ∀ a, a ≠ x → s'.pc a = s.pc a) (hf : ∀ a, a ≠ x → s'.flag a = s.flag a)
+    (hg : ∀ a, a ≠ x → s'.grants a = s.grants a) (hr : ∀ a, a ≠ x → s'.round a = s.round a) : Frame c s s' x none :=
+  ⟨fun a ha => by simp [hp a ha], fun a ha => by simp [hf a ha], fun a ha => by simp [hg a ha], hr⟩
+
+theorem handOver_frame (c : Cfg) (s : State) (t x : Nat) (hx : ∀ b, s.queue.head? = some b → b ≠ x) :
+    Frame c s (handOver c s t x).1 x s.queue.head? := by
+  cases hq : s.queue with
+  | nil =>
+    rw [handOver_nil c s t x hq]
+    exact frame_none (fun a ha => by simp [setPc, ha]) (fun _ _ => rfl) (fun _ _ => rfl) (fun _ _ => rfl)
+  | cons b rest =>
+    obtain ⟨_, _, hg, _, _, hp, hf, hr, _⟩ := handOver_spec c s t x b rest hq
+    have hbx : b ≠ x := hx b (by simp [hq])
+    refine ⟨?_, ?_, ?_, ?_⟩
+    · intro a ha
+      rw [hp]
+      by_cases hab : a = b
+      · subst hab; by_cases hfl : flOf c s a = some Flavour.co <;> simp [hfl, ha]
+      · have : ¬ b = a := fun e => hab e.symm
+        by_cases hfl : flOf c s b = some Flavour.co <;> simp [hfl, ha, hab, this]
+    · intro a ha
+      rw [hf]
+      by_cases hab : a = b
+      · subst hab; by_cases hfl : flOf c s a = some Flavour.co <;> simp [hfl]
+      · have : ¬ b = a := fun e => hab e.symm
+        by_cases hfl : flOf c s b = some Flavour.co <;> simp [hfl, hab, this]
+    · intro a ha
+      rw [hg]
+      by_cases hab : a = b
+      · subst hab; simp
+      · have : ¬ b = a := fun e => hab e.symm
+        simp [hab, this]
+    · intro a _; rw [hr]
+
+theorem frame_congr {s1 s2 s' : State} {x : Nat} {g : Option Nat} (h : Frame c s1 s' x g)
+    (hp : s1.pc = s2.pc) (hf : s1.flag = s2.flag) (hg : s1.grants = s2.grants) (hr : s1.round = s2.round) :
+    Frame c s2 s' x g := by
+  have hfl : ∀ a, flOf c s1 a = flOf c s2 a := fun a => by simp only [flOf_eq, hr]
+  exact ⟨fun a ha => by rw [h.pc a ha, hfl, hp], fun a ha => by rw [h.flag a ha, hfl, hf],
+         fun a ha => by rw [h.grants a ha, hg], fun a ha => by rw [h.round a ha, hr]⟩
+
+theorem unlockStart_frame (c : Cfg) (s : State) (t x : Nat)
+    (hx : s.held (objOf c s x) = true → ∀ b, s.queue.head? = some b → b ≠ x) :
+    Frame c s (unlockStart c s t x).1 x (if s.held (objOf c s x) = true then s.queue.head? else none) := by
+  unfold unlockStart
+  by_cases hh : s.held (objOf c s x) = false
+  · rw [if_pos hh, if_neg (by simp [hh])]
+    exact frame_none (fun a ha => by simp [setPc, ha]) (fun _ _ => rfl) (fun _ _ => rfl) (fun _ _ => rfl)
+  · rw [if_neg hh, if_pos (by simpa using hh)]
+    dsimp only
+    cases hq : s.queue with
+    | nil =>
+      dsimp only
+      split
+      · exact frame_none (fun a ha => by simp [setPc, ha]) (fun _ _ => rfl) (fun _ _ => rfl) (fun _ _ => rfl)
+      · exact frame_none (fun a ha => by simp [setPc, ha]) (fun _ _ => rfl) (fun _ _ => rfl) (fun _ _ => rfl)
+    | cons b rest =>
+      dsimp only
+      have := handOver_frame c { s with held := upd s.held (objOf c s x) false } t x (hx (by simpa using hh))
+      rw [show ({ s with held := upd s.held (objOf c s x) false } : State).queue = s.queue from rfl, hq] at this
+      exact frame_congr this rfl rfl rfl rfl
+
+/-- **frame of an activity**: an activity of `x` changes pc / flag / grant counter of another agent only by handing the
+    lock over to it -/
+theorem step_frame (c : Cfg) (s : State) (t x : Nat) (hx : ∀ b, grantee c s x = some b → b ≠ x) :
+    Frame c s (agentStep c s t x).1 x (grantee c s x) := by
+  by_cases hA : s.pc x = Pc.afterCs
+  · by_cases hg : relOf c s x = some Rel.g
+    · have e : grantee c s x = none := by simp [grantee, unlocking, hA, hg]
+      rw [e, agentStep_afterCs_g c s t x hA hg]
+      exact frame_none (fun a ha => by simp [setPc, ha]) (fun _ _ => rfl) (fun _ _ => rfl) (fun _ _ => rfl)
+    · have e : grantee c s x = (if s.held (objOf c s x) = true then s.queue.head? else none) := by
+        simp [grantee, unlocking, hA, hg]
+      rw [e] at hx ⊢
+      rw [agentStep_afterCs_ng c s t x hA hg]
+      exact frame_congr (unlockStart_frame c { s with incs := s.incs - 1 } t x
+        (fun hh b hb => hx b (by rw [if_pos (show s.held (objOf c s x) = true from hh)]; exact hb))) rfl rfl rfl rfl
+  by_cases hS : s.pc x = Pc.asg
+  · have e : grantee c s x = (if s.held (objOf c s x) = true then s.queue.head? else none) := by
+      simp [grantee, unlocking, hS]
+    rw [e] at hx ⊢
+    rw [agentStep_asg c s t x hS]
+    exact unlockStart_frame c s t x (fun hh b hb => hx b (by rw [if_pos hh]; exact hb))
+  by_cases hR : s.pc x = Pc.relHand
+  · have e : grantee c s x = s.queue.head? := by simp [grantee, unlocking, hR]
+    rw [e] at hx ⊢
+    rw [agentStep_relHand c s t x hR]
+    exact handOver_frame c s t x hx
+  · have e : grantee c s x = none := by simp [grantee, unlocking, hA, hS, hR]
+    rw [e]
+    apply frame_none
+    all_goals
+      intro a ha
+      unfold agentStep
+      (repeat' split) <;> simp_all [setPc]
+
+/-- the step that hands the lock over is `handOver` with the head of the queue -/
+theorem step_handOver (c : Cfg) (s : State) (t x b : Nat) (hg : grantee c s x = some b) :
+    ∃ k hd, (agentStep c s t x).1 = (handOver c { s with incs := k, held := hd } t x).1 ∧ ∃ rest, s.queue = b :: rest := by
   unfold grantee at hg
   split at hg
-  · rename_i hpc
+  · rename_i hu
     have hq : ∃ rest, s.queue = b :: rest := by
       cases hq : s.queue with
       | nil => simp [hq] at hg
       | cons b' rest => simp [hq] at hg; exact ⟨rest, by rw [hg]⟩
     obtain ⟨rest, hq⟩ := hq
-    rcases hpc with hpc | hpc
-    · refine ⟨s.incs - 1, ?_, rest, hq⟩
-      unfold agentStep
-      simp only [hpc, hq]
-    · refine ⟨s.incs, ?_, rest, hq⟩
-      unfold agentStep
-      simp only [hpc]
+    rcases hu with ⟨hpc, hrel, hh⟩ | ⟨hpc, hh⟩ | hpc
+    · refine ⟨s.incs - 1, upd s.held (objOf c s x) false, ?_, rest, hq⟩
+      rw [agentStep_afterCs_ng c s t x hpc hrel, unlockStart_cons c { s with incs := s.incs - 1 } t x b rest hh hq]
+      rfl
+    · refine ⟨s.incs, upd s.held (objOf c s x) false, ?_, rest, hq⟩
+      rw [agentStep_asg c s t x hpc, unlockStart_cons c s t x b rest hh hq]
+    · refine ⟨s.incs, s.held, ?_, rest, hq⟩
+      rw [agentStep_relHand c s t x hpc]
   · simp at hg
 
-theorem handOver_pc_other (c : Cfg) (s : State) (t x a : Nat) (hax : a ≠ x) :
-    (handOver c s t x).1.pc a = if s.queue.head? = some a ∧ c.kind a = AKind.coro then Pc.crit else s.pc a := by
-  cases hq : s.queue with
-  | nil => simp [handOver, hq, setPc, hax]
-  | cons b rest =>
-    have h := (handOver_spec c s t x b rest hq).2.2.2.2.2.1
-    rw [h]
-    by_cases hab : a = b
-    · subst hab; cases hk : c.kind a <;> simp [hax]
-    · have : ¬ b = a := fun e => hab e.symm
-      cases hk : c.kind b <;> simp [hax, hab, this]
+/-- the agent that is handed the lock is a waiting one, hence not the releasing owner -/
+theorem Inv.grantee_facts (h : Inv c s) {x b : Nat} (hg : grantee c s x = some b) :
+    Owner s x ∧ isWaiting (s.pc b) (s.flag b) = true ∧ b ≠ x ∧ ∃ rest, s.queue = b :: rest := by
+  unfold grantee at hg
+  split at hg
+  · rename_i hu
+    have hq : ∃ rest, s.queue = b :: rest := by
+      cases hq : s.queue with
+      | nil => simp [hq] at hg
+      | cons b' rest => simp [hq] at hg; exact ⟨rest, by rw [hg]⟩
+    obtain ⟨rest, hq⟩ := hq
+    obtain ⟨hw, _, _, _⟩ := h.head_facts hq
+    have hown : Owner s x := by
+      rcases hu with ⟨e, _⟩ | ⟨e, _⟩ | e <;> simp [Owner, e, isOwner]
+    refine ⟨hown, hw, ?_, rest, hq⟩
+    rintro rfl
+    unfold Owner at hown
+    generalize s.pc b = p at *
+    cases p <;> simp_all [isOwner, isWaiting]
+  · cases hg
 
-/-- an activity of `x` changes the pc of another agent only by handing the lock to a parked coroutine -/
-theorem step_pc_other (c : Cfg) (s : State) (t x a : Nat) (hax : a ≠ x) :
-    (agentStep c s t x).1.pc a = if grantee s x = some a ∧ c.kind a = AKind.coro then Pc.crit else s.pc a := by
-  by_cases hA : s.pc x = Pc.afterCs
-  · unfold agentStep grantee
-    simp only [hA, true_or, if_true]
-    cases hq : s.queue with
-    | nil => simp only []; split <;> simp [setPc, hax]
-    | cons b rest => simp only []; rw [handOver_pc_other _ _ _ _ _ hax]
-  by_cases hR : s.pc x = Pc.relHand
-  · unfold agentStep grantee
-    simp only [hR, or_true, if_true]
-    rw [handOver_pc_other _ _ _ _ _ hax]
-  · unfold agentStep grantee
-    split <;> (try split) <;> (try split) <;> (try split) <;> simp_all [setPc]
-
-theorem handOver_flag_other (c : Cfg) (s : State) (t x a : Nat) :
-    (handOver c s t x).1.flag a = if s.queue.head? = some a ∧ c.kind a = AKind.sync then true else s.flag a := by
-  cases hq : s.queue with
-  | nil => simp [handOver, hq, setPc]
-  | cons b rest =>
-    have h := (handOver_spec c s t x b rest hq).2.2.2.2.2.2
-    rw [h]
-    by_cases hab : a = b
-    · subst hab; cases hk : c.kind a <;> simp
-    · have : ¬ b = a := fun e => hab e.symm
-      cases hk : c.kind b <;> simp [hab, this]
-
-/-- an activity of `x` changes the flag of another agent only by handing the lock to a blocking waiter -/
-theorem step_flag_other (c : Cfg) (s : State) (t x a : Nat) (hax : a ≠ x) :
-    (agentStep c s t x).1.flag a = if grantee s x = some a ∧ c.kind a = AKind.sync then true else s.flag a := by
-  by_cases hA : s.pc x = Pc.afterCs
-  · unfold agentStep grantee
-    simp only [hA, true_or, if_true]
-    cases hq : s.queue with
-    | nil => simp only []; split <;> simp [setPc]
-    | cons b rest => simp only []; rw [handOver_flag_other]
-  by_cases hR : s.pc x = Pc.relHand
-  · unfold agentStep grantee
-    simp only [hR, or_true, if_true]
-    rw [handOver_flag_other]
-  · unfold agentStep grantee
-    split <;> (try split) <;> (try split) <;> (try split) <;> simp_all [setPc]
-
-theorem handOver_grants (c : Cfg) (s : State) (t x a : Nat) :
-    (handOver c s t x).1.grants a = if s.queue.head? = some a then s.grants a + 1 else s.grants a := by
-  cases hq : s.queue with
-  | nil => simp [handOver, hq, setPc]
-  | cons b rest =>
-    rw [(handOver_spec c s t x b rest hq).2.2.1]
-    by_cases hab : a = b
-    · subst hab; simp
-    · have : ¬ b = a := fun e => hab e.symm
-      simp [hab, this]
-
-/-- an activity of `x` grants the lock to another agent only by a hand-over -/
-theorem step_grants_other (c : Cfg) (s : State) (t x a : Nat) (hax : a ≠ x) :
-    (agentStep c s t x).1.grants a = if grantee s x = some a then s.grants a + 1 else s.grants a := by
-  by_cases hA : s.pc x = Pc.afterCs
-  · unfold agentStep grantee
-    simp only [hA, true_or, if_true]
-    cases hq : s.queue with
-    | nil => simp only []; split <;> simp [setPc]
-    | cons b rest => simp only []; rw [handOver_grants]
-  by_cases hR : s.pc x = Pc.relHand
-  · unfold agentStep grantee
-    simp only [hR, or_true, if_true]
-    rw [handOver_grants]
-  · unfold agentStep grantee
-    split <;> (try split) <;> (try split) <;> (try split) <;> simp_all [setPc]
+theorem Inv.step_frame (h : Inv c s) (t x : Nat) : Frame c s (agentStep c s t x).1 x (grantee c s x) :=
+  Cocls.Mutex.step_frame c s t x (fun _ hb => (h.grantee_facts hb).2.2.1)
 
 /-! ## events, pending list -/
 
 theorem handOver_no_cs (c : Cfg) (s : State) (t a x r : Nat) (ov : Bool) : Ev.cs x r ov ∉ (handOver c s t a).2.1 := by
   unfold handOver
-  cases s.queue with
-  | nil => simp
-  | cons b rest =>
-    dsimp only
-    cases c.kind b with
-    | sync => simp
-    | coro =>
-      dsimp only
-      cases c.kind a with
-      | sync => simp
-      | coro => dsimp only; split <;> simp
+  simp only [flOf_eq, relOf_eq]
+  split
+  · simp
+  · split
+    · split
+      · simp
+      · split <;> simp
+    · simp
+    · simp
 
-/-- the only activity that emits a critical-section event is the `crit` step of the agent itself -/
+theorem unlockStart_no_cs (c : Cfg) (s : State) (t a x r : Nat) (ov : Bool) : Ev.cs x r ov ∉ (unlockStart c s t a).2.1 := by
+  unfold unlockStart
+  split
+  · simp
+  · dsimp only
+    split
+    · split <;> simp
+    · exact handOver_no_cs _ _ _ _ _ _ _
+
+/-- the only activity that emits a critical-section event is the `crit`/`critS` step of the agent itself -/
 theorem step_cs_event (c : Cfg) (s : State) (t a x r : Nat) (ov : Bool) (h : Ev.cs x r ov ∈ (agentStep c s t a).2.1) :
-    s.pc a = Pc.crit ∧ x = a ∧ r = s.round a ∧ ov = decide (s.incs > 0) := by
+    (s.pc a = Pc.crit ∨ s.pc a = Pc.critS) ∧ x = a ∧ r = s.round a ∧ ov = decide (s.incs > 0) := by
   unfold agentStep at h
   split at h
   case h_10 hpc => simp at h; simp [hpc, h]
-  case h_11 =>
+  case h_11 hpc => simp at h; simp [hpc, h]
+  case h_12 =>
     dsimp only at h
     split at h
-    · split at h <;> simp at h
-    · exact absurd h (handOver_no_cs _ _ _ _ _ _ _)
-  case h_13 => exact absurd h (handOver_no_cs _ _ _ _ _ _ _)
-  all_goals (try split at h) <;> (try split at h) <;> (try split at h) <;> (try simp at h)
-
+    · simp at h
+    · exact absurd h (unlockStart_no_cs _ _ _ _ _ _ _)
+  case h_13 => exact absurd h (unlockStart_no_cs _ _ _ _ _ _ _)
+  case h_15 => exact absurd h (handOver_no_cs _ _ _ _ _ _ _)
+  all_goals ((repeat' split at h) <;> (try simp at h))
 
 theorem pending_sublist (s : State) : (pending s).Sublist (s.queue ++ (nodesOf s.req).reverse) :=
   List.Sublist.append (List.Sublist.refl _) (List.reverse_sublist.2 List.filter_sublist)
@@ -822,7 +1130,6 @@ theorem owner_canRun {s : State} {a : Nat} (h : Owner s a) : canRun s a = true :
   unfold canRun
   generalize s.pc a = p at *
   cases p <;> simp_all [isOwner]
-
 
 /-! ## OS-thread level: every `threadStep` is a sequence of guarded agent activities -/
 
@@ -834,63 +1141,138 @@ structure ExecEffect (c : Cfg) (s s' : State) (t a : Nat) : Prop where
   rq : ∀ b, b ∈ s'.rq t → b ∈ s.rq t ∨ c.kind b = AKind.coro
   blocked : s'.pc a = Pc.blocked → s'.cur = s.cur ∧ s'.rq = s.rq
 
-theorem handOver_exec (c : Cfg) (s : State) (t a : Nat) : ExecEffect c s (handOver c s t a).1 t a := by
-  unfold handOver
+/-- thread-level well-formedness: besides `WF`, a coroutine contender never blocks its OS thread (no blocking lock /
+    callback wait issued from inside a coroutine).  The agent-level theorems do not need it; the transfer to OS threads
+    does, because a blocked thread does not run the coroutines queued on it (the library asserts against `wait()` in a
+    coroutine for that reason). -/
+def Cfg.WFT (c : Cfg) : Prop :=
+  c.WF ∧ ∀ a r, r ∈ c.rounds a → c.kind a = AKind.coro → r.fl = Flavour.co ∨ r.fl = Flavour.try_
+
+theorem flOf_mem {f : Flavour} (h : flOf c s a = some f) : ∃ r, r ∈ c.rounds a ∧ r.fl = f := by
+  unfold flOf curRound at h
+  cases hr : (c.rounds a)[s.round a]? with
+  | none => simp [hr] at h
+  | some r => simp [hr] at h; exact ⟨r, List.mem_of_getElem? hr, h⟩
+
+theorem wf_co (hwf : c.WF) (h : flOf c s a = some Flavour.co) : c.kind a = AKind.coro := by
+  obtain ⟨r, hm, hf⟩ := flOf_mem h
+  exact hwf a r hm hf
+
+theorem Inv.kindP' (h : Inv c s) (hwf : c.WF) (hp : s.pc a = Pc.parked) : c.kind a = AKind.coro :=
+  wf_co hwf (h.kindP a hp)
+
+theorem Inv.kindW' (h : Inv c s) (hwf : c.WFT) (hp : s.pc a = Pc.waitFlag ∨ s.pc a = Pc.blocked) :
+    c.kind a = AKind.sync := by
+  cases hk : c.kind a with
+  | sync => rfl
+  | coro =>
+    exfalso
+    rcases h.kindW a hp with e | e
+    · obtain ⟨r, hm, hf⟩ := flOf_mem e
+      rcases hwf.2 a r hm hk with e2 | e2 <;> rw [hf] at e2 <;> cases e2
+    · obtain ⟨r, hm, hf⟩ := flOf_mem e
+      rcases hwf.2 a r hm hk with e2 | e2 <;> rw [hf] at e2 <;> cases e2
+
+theorem execEffect_same {s' : State} {t : Nat} (h1 : s'.tmain = s.tmain) (h2 : s'.cur = s.cur) (h3 : s'.rq = s.rq) :
+    ExecEffect c s s' t a :=
+  ⟨h1, fun _ _ => by rw [h2, h3]; exact ⟨rfl, rfl⟩, fun b hb => Or.inl (h2 ▸ hb), fun b hb => Or.inl (h3 ▸ hb),
+   fun _ => ⟨h2, h3⟩⟩
+
+theorem handOver_exec (hwf : c.WF) (s : State) (t a : Nat) : ExecEffect c s (handOver c s t a).1 t a := by
   cases hq : s.queue with
-  | nil => constructor <;> simp [setPc] <;> grind
+  | nil =>
+    rw [handOver_nil c s t a hq]
+    exact execEffect_same rfl rfl rfl
   | cons b rest =>
-    dsimp only
-    cases hkb : c.kind b with
-    | sync => constructor <;> simp [setPc] <;> grind
-    | coro =>
-      dsimp only
+    have hco := wf_co hwf (s := s) (a := b)
+    unfold handOver
+    simp only [hq]
+    have e : flOf c { s with queue := rest, grants := upd s.grants b (s.grants b + 1),
+                             grantReqs := s.grantReqs ++ [(b, s.round b)] } b = flOf c s b := rfl
+    rw [e]
+    split
+    · rename_i hfl
+      have hkb := hco hfl
       cases hka : c.kind a with
       | sync => constructor <;> simp [setPc, upd_apply] <;> grind
       | coro =>
         dsimp only
         split <;> constructor <;> simp [setPc, upd_apply] <;> grind
+    · exact execEffect_same rfl rfl rfl
+    · exact execEffect_same rfl rfl rfl
 
-theorem execEffect_incs {s s' : State} {t a k : Nat} (h : ExecEffect c { s with incs := k } s' t a) :
-    ExecEffect c s s' t a := ⟨h.tmain, h.other, h.cur, h.rq, h.blocked⟩
+theorem execEffect_congr {s1 s2 s' : State} {t a : Nat} (h : ExecEffect c s1 s' t a)
+    (h1 : s1.tmain = s2.tmain) (h2 : s1.cur = s2.cur) (h3 : s1.rq = s2.rq) : ExecEffect c s2 s' t a :=
+  ⟨h1 ▸ h.tmain, fun t' ht => by rw [← h2, ← h3]; exact h.other t' ht, fun b hb => by rw [← h2]; exact h.cur b hb,
+   fun b hb => by rw [← h3]; exact h.rq b hb, fun hb => by rw [← h2, ← h3]; exact h.blocked hb⟩
 
-theorem agentStep_exec (c : Cfg) (s : State) (t a : Nat) : ExecEffect c s (agentStep c s t a).1 t a := by
+theorem unlockStart_exec (hwf : c.WF) (s : State) (t a : Nat) : ExecEffect c s (unlockStart c s t a).1 t a := by
+  unfold unlockStart
+  split
+  · exact execEffect_same rfl rfl rfl
+  · dsimp only
+    split
+    · split <;> exact execEffect_same rfl rfl rfl
+    · exact execEffect_congr (handOver_exec hwf { s with held := upd s.held (objOf c s a) false } t a) rfl rfl rfl
+
+theorem agentStep_exec (hwf : c.WF) (s : State) (t a : Nat) : ExecEffect c s (agentStep c s t a).1 t a := by
+  by_cases hA : s.pc a = Pc.afterCs
+  · by_cases hg : relOf c s a = some Rel.g
+    · rw [agentStep_afterCs_g c s t a hA hg]; exact execEffect_same rfl rfl rfl
+    · rw [agentStep_afterCs_ng c s t a hA hg]
+      exact execEffect_congr (unlockStart_exec hwf { s with incs := s.incs - 1 } t a) rfl rfl rfl
+  by_cases hS : s.pc a = Pc.asg
+  · rw [agentStep_asg c s t a hS]; exact unlockStart_exec hwf s t a
+  by_cases hR : s.pc a = Pc.relHand
+  · rw [agentStep_relHand c s t a hR]; exact handOver_exec hwf s t a
   unfold agentStep
   split
-  case h_11 =>
-    dsimp only
-    split
-    · split <;> constructor <;> simp [setPc] <;> grind
-    · exact execEffect_incs (handOver_exec c _ t a)
-  case h_13 => exact handOver_exec c s t a
   case h_6 prev hpc =>
     split
-    · by_cases hc : prev ≠ Seen.null ∧ c.kind a = AKind.coro
-      · rw [if_pos hc]; constructor <;> simp [setPc, upd_apply] <;> grind
+    · by_cases hc : prev ≠ Seen.null ∧ flOf c s a = some Flavour.co
+      · have hk := wf_co hwf hc.2
+        rw [if_pos hc]; constructor <;> simp [setPc, upd_apply] <;> grind
       · rw [if_neg hc]; constructor <;> simp [setPc] <;> grind
     · constructor <;> simp [setPc] <;> grind
-  all_goals (try split) <;> (try split) <;> (try split) <;> constructor <;> simp [setPc] <;> grind
+  all_goals first | (exact absurd ‹_› hA) | (exact absurd ‹_› hS) | (exact absurd ‹_› hR) | skip
+  all_goals ((repeat' split) <;> constructor <;> simp [setPc] <;> grind)
 
 theorem handOver_pc_self (c : Cfg) (s : State) (t a : Nat) : (handOver c s t a).1.pc a = Pc.relDone := by
   cases hq : s.queue with
-  | nil => simp [handOver, hq, setPc]
+  | nil => simp [handOver_nil c s t a hq, setPc]
   | cons b rest =>
     rw [(handOver_spec c s t a b rest hq).2.2.2.2.2.1]
     split <;> simp
 
+theorem unlockStart_pc_self (c : Cfg) (s : State) (t a : Nat) :
+    (unlockStart c s t a).1.pc a = Pc.relDone ∨ (unlockStart c s t a).1.pc a = Pc.relBuild := by
+  unfold unlockStart
+  split
+  · simp [setPc]
+  · dsimp only
+    split
+    · split <;> simp [setPc]
+    · left; exact handOver_pc_self c _ t a
+
 /-- an agent becomes `blocked` only by the step that blocks its thread -/
 theorem agentStep_blocked_outcome (c : Cfg) (s : State) (t a : Nat) (h : (agentStep c s t a).1.pc a = Pc.blocked) :
     (agentStep c s t a).2.2 = Outcome.blockedT := by
+  by_cases hA : s.pc a = Pc.afterCs
+  · by_cases hg : relOf c s a = some Rel.g
+    · rw [agentStep_afterCs_g c s t a hA hg] at h; simp [setPc] at h
+    · rw [agentStep_afterCs_ng c s t a hA hg] at h
+      rcases unlockStart_pc_self c { s with incs := s.incs - 1 } t a with e | e <;> rw [e] at h <;> cases h
+  by_cases hS : s.pc a = Pc.asg
+  · rw [agentStep_asg c s t a hS] at h
+    rcases unlockStart_pc_self c s t a with e | e <;> rw [e] at h <;> cases h
+  by_cases hR : s.pc a = Pc.relHand
+  · rw [agentStep_relHand c s t a hR] at h
+    rw [handOver_pc_self] at h; cases h
   unfold agentStep at h ⊢
   split
-  case h_11 =>
-    simp only [*] at h
-    dsimp only at h ⊢
-    split at h
-    · split at h <;> simp [setPc] at h
-    · rw [handOver_pc_self] at h; cases h
-  case h_13 => simp only [*] at h; rw [handOver_pc_self] at h; cases h
+  all_goals first | (exact absurd ‹_› hA) | (exact absurd ‹_› hS) | (exact absurd ‹_› hR) | skip
   all_goals simp only [*] at h
-  all_goals (try split at h) <;> (try split at h) <;> (try split at h) <;> simp_all [setPc]
+  all_goals ((repeat' split at h) <;> simp_all [setPc])
 
 /-- executor invariant of the thread-level runs -/
 structure TInv (c : Cfg) (s : State) : Prop where
@@ -923,9 +1305,10 @@ theorem tinv_init (c : Cfg) : TInv c (init c) := by
 def RunsAs (c : Cfg) (s : State) (t a : Nat) : Prop :=
   (c.kind a = AKind.sync ∧ t = a ∧ s.cur a = none ∧ s.rq a = []) ∨ (c.kind a = AKind.coro ∧ s.cur t = some a)
 
-theorem tinv_agentStep {t a : Nat} (hT : TInv c s) (hrun : RunsAs c s t a) : TInv c (agentStep c s t a).1 := by
-  have hE := agentStep_exec c s t a
-  have hpo := step_pc_other c s t a
+theorem tinv_agentStep {t a : Nat} (hwf : c.WF) (hI : Inv c s) (hT : TInv c s) (hrun : RunsAs c s t a) :
+    TInv c (agentStep c s t a).1 := by
+  have hE := agentStep_exec hwf s t a
+  have hpo := (hI.step_frame t a).pc
   refine ⟨?_, ?_, ?_, ?_, ?_⟩
   · intro t' b hb
     by_cases ht : t' = t
@@ -985,68 +1368,113 @@ theorem sim_act (hwf : c.WF) {t a : Nat} (hI : Inv c s) (hT : TInv c s) (hrun : 
     ∃ l0, Guarded c s l0 ∧ (agentStep c s t a).1 = arun c s l0 ∧ Inv c (agentStep c s t a).1 ∧
       TInv c (agentStep c s t a).1 := by
   by_cases hc : canRun s a = true
-  · exact ⟨[(t, a)], ⟨hc, trivial⟩, rfl, inv_step hwf hI t hc, tinv_agentStep hT hrun⟩
+  · exact ⟨[(t, a)], ⟨hc, trivial⟩, rfl, inv_step hI t hc, tinv_agentStep hwf hI hT hrun⟩
   · have hc' : canRun s a = false := by simpa using hc
     have := agentStep_noop (c := c) (t := t) hc' hw
     exact ⟨[], trivial, this, by rw [this]; exact hI, by rw [this]; exact hT⟩
 
 /-! ## OS-thread level: no runnable coroutine is ever lost by the executor glue (deadlock freedom for threads) -/
 
-/-- where the executor glue puts agents -/
-structure Placement (c : Cfg) (s s' : State) (t a : Nat) (o : Outcome) : Prop where
+/-- where the executor glue puts agents (`g`: whom the activity hands the lock to) -/
+structure Placement (c : Cfg) (s s' : State) (t a : Nat) (g : Option Nat) (o : Outcome) : Prop where
   /-- nothing leaves the thread's ready queue -/
   rqMono : ∀ x, x ∈ s.rq t → x ∈ s'.rq t
   /-- a coroutine that is handed the lock is put on this thread (current coroutine or ready queue) -/
-  granted : ∀ b, grantee s a = some b → c.kind b = AKind.coro → s'.cur t = some b ∨ b ∈ s'.rq t
+  granted : ∀ b, g = some b → flOf c s b = some Flavour.co → s'.cur t = some b ∨ b ∈ s'.rq t
   /-- the running coroutine stays on the thread unless it parked or finished -/
   self : c.kind a = AKind.coro → s.cur t = some a → s'.cur t = some a ∨ a ∈ s'.rq t ∨ s'.pc a = Pc.parked ∨ s'.pc a = Pc.done
   fin : o = Outcome.finished → s'.pc a = Pc.done ∧ s'.cur = s.cur ∧ s'.rq = s.rq
   susp : o = Outcome.suspended → s'.pc a = Pc.parked ∨ a ∈ s'.rq t
 
-theorem handOver_place (c : Cfg) (s : State) (t a : Nat) (hpc : s.pc a = Pc.afterCs ∨ s.pc a = Pc.relHand) :
-    Placement c s (handOver c s t a).1 t a (handOver c s t a).2.2 := by
-  have hg : grantee s a = s.queue.head? := by simp [grantee, hpc]
-  unfold handOver
+theorem placement_same {s' : State} {t : Nat} {o : Outcome} (h2 : s'.cur = s.cur) (h3 : s'.rq = s.rq)
+    (hf : o = Outcome.finished → s'.pc a = Pc.done) (hs : o = Outcome.suspended → s'.pc a = Pc.parked) :
+    Placement c s s' t a none o := by
+  refine ⟨?_, ?_, ?_, ?_, ?_⟩
+  · intro x hx; rw [h3]; exact hx
+  · intro b h; cases h
+  · intro _ hc; left; rw [h2]; exact hc
+  · intro e; exact ⟨hf e, h2, h3⟩
+  · intro e; exact Or.inl (hs e)
+
+theorem handOver_place (c : Cfg) (s : State) (t a : Nat) :
+    Placement c s (handOver c s t a).1 t a s.queue.head? (handOver c s t a).2.2 := by
   cases hq : s.queue with
-  | nil => constructor <;> simp [setPc, hg, hq] <;> grind
+  | nil =>
+    unfold handOver
+    simp only [hq]
+    exact placement_same rfl rfl (by simp) (by simp)
   | cons b rest =>
-    dsimp only
-    cases hkb : c.kind b with
-    | sync => constructor <;> simp [setPc, hg, hq] <;> grind
-    | coro =>
-      dsimp only
+    unfold handOver
+    simp only [hq]
+    have e : flOf c { s with queue := rest, grants := upd s.grants b (s.grants b + 1),
+                             grantReqs := s.grantReqs ++ [(b, s.round b)] } b = flOf c s b := rfl
+    rw [e]
+    split
+    · rename_i hfl
       cases hka : c.kind a with
-      | sync => constructor <;> simp [setPc, hg, hq] <;> grind
+      | sync => constructor <;> simp [setPc] <;> grind
       | coro =>
         dsimp only
-        split <;> constructor <;> simp [setPc, hg, hq] <;> grind
+        split <;> constructor <;> simp [setPc] <;> grind
+    · rename_i hfl
+      constructor <;> simp [setPc, hfl] <;> grind
+    · rename_i hn1 hn2
+      constructor <;> simp [setPc] <;> grind
 
-theorem placement_incs {s s' : State} {t a k : Nat} {o : Outcome}
-    (h : Placement c { s with incs := k } s' t a o) : Placement c s s' t a o :=
-  ⟨h.rqMono, h.granted, h.self, h.fin, h.susp⟩
+theorem placement_congr {s1 s2 s' : State} {t a : Nat} {g : Option Nat} {o : Outcome} (h : Placement c s1 s' t a g o)
+    (h2 : s1.cur = s2.cur) (h3 : s1.rq = s2.rq) (h4 : s1.round = s2.round) : Placement c s2 s' t a g o := by
+  have hfl : ∀ b, flOf c s1 b = flOf c s2 b := fun b => by simp only [flOf_eq, h4]
+  refine ⟨?_, ?_, ?_, ?_, h.susp⟩
+  · intro x hx; exact h.rqMono x (by rw [h3]; exact hx)
+  · intro b hb hf; exact h.granted b hb (by rw [hfl]; exact hf)
+  · intro hk hc; exact h.self hk (by rw [h2]; exact hc)
+  · intro e; rw [← h2, ← h3]; exact h.fin e
 
-theorem agentStep_afterCs_handOver (c : Cfg) (s : State) (t a : Nat) (hA : s.pc a = Pc.afterCs) (hq : s.queue ≠ []) :
-    agentStep c s t a = handOver c { s with incs := s.incs - 1 } t a := by
-  unfold agentStep
-  simp only [hA]
+theorem unlockStart_place (c : Cfg) (s : State) (t a : Nat) :
+    Placement c s (unlockStart c s t a).1 t a (if s.held (objOf c s a) = true then s.queue.head? else none)
+      (unlockStart c s t a).2.2 := by
+  unfold unlockStart
+  by_cases hh : s.held (objOf c s a) = false
+  · rw [if_pos hh, if_neg (by simp [hh])]
+    exact placement_same rfl rfl (by simp) (by simp)
+  · rw [if_neg hh, if_pos (by simpa using hh)]
+    dsimp only
+    cases hq : s.queue with
+    | nil =>
+      dsimp only
+      split <;> exact placement_same rfl rfl (by simp) (by simp)
+    | cons b rest =>
+      dsimp only
+      have := handOver_place c { s with held := upd s.held (objOf c s a) false } t a
+      rw [show ({ s with held := upd s.held (objOf c s a) false } : State).queue = s.queue from rfl, hq] at this
+      exact placement_congr this rfl rfl rfl
 
 theorem agentStep_place (c : Cfg) (s : State) (t a : Nat) :
-    Placement c s (agentStep c s t a).1 t a (agentStep c s t a).2.2 := by
+    Placement c s (agentStep c s t a).1 t a (grantee c s a) (agentStep c s t a).2.2 := by
   by_cases hA : s.pc a = Pc.afterCs
-  · have hg : grantee s a = s.queue.head? := by simp [grantee, hA]
-    by_cases hq : s.queue = []
-    · unfold agentStep
-      simp only [hA, hq]
-      split <;> constructor <;> simp [setPc, hg, hq] <;> grind
-    · rw [agentStep_afterCs_handOver c s t a hA hq]
-      exact placement_incs (handOver_place c { s with incs := s.incs - 1 } t a (Or.inl hA))
+  · by_cases hg : relOf c s a = some Rel.g
+    · have e : grantee c s a = none := by simp [grantee, unlocking, hA, hg]
+      rw [e, agentStep_afterCs_g c s t a hA hg]
+      exact placement_same rfl rfl (by simp) (by simp)
+    · have e : grantee c s a = (if s.held (objOf c s a) = true then s.queue.head? else none) := by
+        simp [grantee, unlocking, hA, hg]
+      rw [e, agentStep_afterCs_ng c s t a hA hg]
+      exact placement_congr (unlockStart_place c { s with incs := s.incs - 1 } t a) rfl rfl rfl
+  by_cases hS : s.pc a = Pc.asg
+  · have e : grantee c s a = (if s.held (objOf c s a) = true then s.queue.head? else none) := by
+      simp [grantee, unlocking, hS]
+    rw [e, agentStep_asg c s t a hS]
+    exact unlockStart_place c s t a
   by_cases hR : s.pc a = Pc.relHand
-  · unfold agentStep
-    simp only [hR]
-    exact handOver_place c s t a (Or.inr hR)
-  · have hg : grantee s a = none := by simp [grantee, hA, hR]
+  · have e : grantee c s a = s.queue.head? := by simp [grantee, unlocking, hR]
+    rw [e, agentStep_relHand c s t a hR]
+    exact handOver_place c s t a
+  · have e : grantee c s a = none := by simp [grantee, unlocking, hA, hS, hR]
+    rw [e]
     unfold agentStep
-    split <;> (try split) <;> (try split) <;> (try split) <;> constructor <;> simp_all [setPc] <;> grind
+    split
+    all_goals first | (exact absurd ‹_› hA) | (exact absurd ‹_› hS) | (exact absurd ‹_› hR) | skip
+    all_goals ((repeat' split) <;> constructor <;> simp_all [setPc] <;> grind)
 
 /-- location invariant of the thread-level runs: every runnable coroutine is hosted by a live thread -/
 structure LInv (c : Cfg) (s : State) : Prop where
@@ -1068,11 +1496,11 @@ theorem linv_init (c : Cfg) : LInv c (init c) := by
     · simp [init, h, hk]
     · simp [init, h] at hpc
 
-theorem linv_agentStep {t a : Nat} (hI : Inv c s) (hL : LInv c s) (hrun : RunsAs c s t a)
+theorem linv_agentStep {t a : Nat} (hwf : c.WFT) (hI : Inv c s) (hL : LInv c s) (hrun : RunsAs c s t a)
     (hlive : s.tmain t ≠ TMain.finished) : LInv c (agentStep c s t a).1 := by
-  have hE := agentStep_exec c s t a
+  have hE := agentStep_exec hwf.1 s t a
   have hP := agentStep_place c s t a
-  have hpo := step_pc_other c s t a
+  have hpo := (hI.step_frame t a).pc
   refine ⟨?_, ?_, ?_⟩
   · intro x hkx hcan
     by_cases hxa : x = a
@@ -1084,11 +1512,11 @@ theorem linv_agentStep {t a : Nat} (hI : Inv c s) (hL : LInv c s) (hrun : RunsAs
         · exact Or.inl ⟨t, Or.inr h⟩
         · simp [canRun, h] at hcan
         · simp [canRun, h] at hcan
-    · by_cases hg : grantee s a = some x ∧ c.kind x = AKind.coro
+    · by_cases hg : grantee c s a = some x ∧ flOf c s x = some Flavour.co
       · exact Or.inl ⟨t, hP.granted x hg.1 hg.2⟩
       · have hpc : (agentStep c s t a).1.pc x = s.pc x := by rw [hpo x hxa, if_neg hg]
         have hnb : s.pc x ≠ Pc.blocked := by
-          intro h; have := hI.kindW x (Or.inr h); rw [hkx] at this; cases this
+          intro h; have := hI.kindW' hwf (Or.inr h); rw [hkx] at this; cases this
         have hcan0 : canRun s x = true := by
           unfold canRun at hcan ⊢
           rw [hpc] at hcan
@@ -1121,7 +1549,7 @@ theorem linv_agentStep {t a : Nat} (hI : Inv c s) (hL : LInv c s) (hrun : RunsAs
       rw [this] at hpc; exact hpc hd
     · rw [hpo x hxa] at hpc
       split at hpc
-      · rename_i h; rw [hkx] at h; cases h.2
+      · rename_i h; have := wf_co hwf.1 h.2; rw [hkx] at this; cases this
       · exact hpc hd
 
 theorem linv_clear_cur (hL : LInv c s) {t b : Nat} (hb : s.cur t = some b) (hnr : canRun s b = false ∨ b ∈ s.rq t) :
@@ -1256,7 +1684,7 @@ theorem sim_continue {s s1 s2 R : State} {l0 : List (Nat × Nat)} (hl0 : Guarded
   have := run_core_congr c l2 h12
   exact ⟨l0 ++ l2, (guarded_append _ _ _).2 ⟨hl0, this.1.1 hg2⟩, by rw [arun_append, hr]; exact this.2, hT, hL⟩
 
-theorem threadStep_sim (hwf : c.WF) : ∀ (fuel : Nat) (s : State) (t : Nat), Inv c s → TInv c s → LInv c s → WakeOk s t →
+theorem threadStep_sim (hwf : c.WFT) : ∀ (fuel : Nat) (s : State) (t : Nat), Inv c s → TInv c s → LInv c s → WakeOk s t →
     ∃ l, Guarded c s l ∧ core (threadStep c fuel s t).1 = core (arun c s l) ∧ TInv c (threadStep c fuel s t).1 ∧
       LInv c (threadStep c fuel s t).1 := by
   intro fuel
@@ -1271,19 +1699,19 @@ theorem threadStep_sim (hwf : c.WF) : ∀ (fuel : Nat) (s : State) (t : Nat), In
       have hkb := hT.curK t b hcur
       have hrun : RunsAs c s t b := Or.inr ⟨hkb, hcur⟩
       have hw : s.pc b = Pc.blocked → s.flag b = true := by
-        intro h; have := hI.kindW b (Or.inr h); rw [hkb] at this; cases this
-      obtain ⟨l0, hl0, he, hI1, hT1⟩ := sim_act hwf hI hT hrun hw
-      have hE := agentStep_exec c s t b
+        intro h; have := hI.kindW' hwf (Or.inr h); rw [hkb] at this; cases this
+      obtain ⟨l0, hl0, he, hI1, hT1⟩ := sim_act hwf.1 hI hT hrun hw
+      have hE := agentStep_exec hwf.1 s t b
       have hP := agentStep_place c s t b
       have hL1 : LInv c (agentStep c s t b).1 :=
-        linv_agentStep hI hL hrun (hL.live t (Or.inl (by rw [hcur]; simp)))
+        linv_agentStep hwf hI hL hrun (hL.live t (Or.inl (by rw [hcur]; simp)))
       -- the thread's own blocking contender is not blocked while a coroutine runs on the thread
       have hnb : (agentStep c s t b).1.tmain t = TMain.syncBody → (agentStep c s t b).1.pc t ≠ Pc.blocked := by
         intro htm hpc
         rw [hE.tmain] at htm
         have hbt : t ≠ b := by
           rintro rfl; have := hT.syncK t htm; rw [hkb] at this; cases this
-        rw [step_pc_other c s t b t hbt] at hpc
+        rw [(hI.step_frame t b).pc t hbt] at hpc
         split at hpc
         · cases hpc
         · have := (hT.blk t htm hpc).1; rw [hcur] at this; cases this
@@ -1342,11 +1770,11 @@ theorem threadStep_sim (hwf : c.WF) : ∀ (fuel : Nat) (s : State) (t : Nat), In
           dsimp only
           have hkt := hT.syncK t htm
           have hrun : RunsAs c s t t := Or.inl ⟨hkt, rfl, hcur, hrq⟩
-          obtain ⟨l0, hl0, he, hI1, hT1⟩ := sim_act hwf hI hT hrun (hW hcur hrq htm)
+          obtain ⟨l0, hl0, he, hI1, hT1⟩ := sim_act hwf.1 hI hT hrun (hW hcur hrq htm)
           have hbo := agentStep_blocked_outcome c s t t
-          have hE := agentStep_exec c s t t
+          have hE := agentStep_exec hwf.1 s t t
           have hP := agentStep_place c s t t
-          have hL1 : LInv c (agentStep c s t t).1 := linv_agentStep hI hL hrun (by rw [htm]; simp)
+          have hL1 : LInv c (agentStep c s t t).1 := linv_agentStep hwf hI hL hrun (by rw [htm]; simp)
           generalize hs1 : (agentStep c s t t).fst = s1 at *
           generalize (agentStep c s t t).2.fst = e1
           generalize ho : (agentStep c s t t).2.snd = o at *
@@ -1367,7 +1795,7 @@ theorem threadStep_sim (hwf : c.WF) : ∀ (fuel : Nat) (s : State) (t : Nat), In
     invariants, what OS thread `t` does between two scheduling points (when the scheduler may run it: `enabled`)
     leads — up to the executor's bookkeeping `cur`/`rq`/`tmain` — to the same state as a list `l` of agent activities
     each of which is permitted by `canRun`. -/
-theorem threadStep_is_arun (hwf : c.WF) (hI : Inv c s) (hT : TInv c s) (hL : LInv c s) (fuel t : Nat)
+theorem threadStep_is_arun (hwf : c.WFT) (hI : Inv c s) (hT : TInv c s) (hL : LInv c s) (fuel t : Nat)
     (he : enabled s t = true) :
     ∃ l, Guarded c s l ∧ core (threadStep c fuel s t).1 = core (arun c s l) := by
   obtain ⟨l, hg, hc, _⟩ := threadStep_sim hwf fuel s t hI hT hL (wakeOk_of_enabled he)
@@ -1382,15 +1810,15 @@ def TGuarded (c : Cfg) (fuel : Nat) : State → List Nat → Prop
   | _, [] => True
   | s, t :: ts => enabled s t = true ∧ TGuarded c fuel (threadStep c fuel s t).1 ts
 
-theorem threadStep_reachable (hwf : c.WF) (hs : Reachable c s) (hT : TInv c s) (hL : LInv c s) (fuel t : Nat)
+theorem threadStep_reachable (hwf : c.WFT) (hs : Reachable c s) (hT : TInv c s) (hL : LInv c s) (fuel t : Nat)
     (he : enabled s t = true) :
     Reachable c (threadStep c fuel s t).1 ∧ TInv c (threadStep c fuel s t).1 ∧ LInv c (threadStep c fuel s t).1 := by
-  obtain ⟨l, hg, hc, hT', hL'⟩ := threadStep_sim hwf fuel s t (inv_reachable hwf hs) hT hL (wakeOk_of_enabled he)
+  obtain ⟨l, hg, hc, hT', hL'⟩ := threadStep_sim hwf fuel s t (inv_reachable hs) hT hL (wakeOk_of_enabled he)
   exact ⟨reachable_core_congr hc.symm (reachable_arun hs l hg), hT', hL'⟩
 
 /-- **Transfer to the OS-thread level.** Every state the driver/harness can reach by scheduling enabled threads is
     `Reachable`, hence all theorems about reachable states hold for it. -/
-theorem treachable_reachable (hwf : c.WF) (fuel : Nat) : ∀ (ts : List Nat) (s : State), Reachable c s → TInv c s →
+theorem treachable_reachable (hwf : c.WFT) (fuel : Nat) : ∀ (ts : List Nat) (s : State), Reachable c s → TInv c s →
     LInv c s → TGuarded c fuel s ts →
     Reachable c (trun c fuel s ts) ∧ TInv c (trun c fuel s ts) ∧ LInv c (trun c fuel s ts) := by
   intro ts
@@ -1401,7 +1829,7 @@ theorem treachable_reachable (hwf : c.WF) (fuel : Nat) : ∀ (ts : List Nat) (s 
     obtain ⟨h1, h2, h3⟩ := threadStep_reachable hwf hs hT hL fuel t hg.1
     exact ih _ h1 h2 h3 hg.2
 
-theorem trun_init_reachable (hwf : c.WF) (fuel : Nat) (ts : List Nat) (hg : TGuarded c fuel (init c) ts) :
+theorem trun_init_reachable (hwf : c.WFT) (fuel : Nat) (ts : List Nat) (hg : TGuarded c fuel (init c) ts) :
     Reachable c (trun c fuel (init c) ts) :=
   (treachable_reachable hwf fuel ts _ (reachable_init c) (tinv_init c) (linv_init c) hg).1
 
@@ -1421,22 +1849,37 @@ theorem inv_stuck_done (h : Inv c s) (hstuck : ∀ a, canRun s a = false) : ∀ 
   cases p <;> simp_all [isWaiting]
 
 theorem enabled_false {s : State} {t : Nat} (h : enabled s t = false) (htm : s.tmain t ≠ TMain.finished) :
-    s.cur t = none ∧ s.rq t = [] ∧ s.pc t = Pc.blocked ∧ s.tmain t = TMain.syncBody ∧ s.flag t = false := by
+    (∃ b, s.cur t = some b ∧ s.pc b = Pc.blocked ∧ s.flag b = false) ∨
+    (s.cur t = none ∧ s.rq t = [] ∧ s.pc t = Pc.blocked ∧ s.tmain t = TMain.syncBody ∧ s.flag t = false) := by
   unfold enabled at h
   split at h
   · rename_i hm; exact absurd hm htm
   · split at h
-    · cases h
-    · split at h
+    · rename_i b hb
+      left
+      split at h
+      · rename_i hp; exact ⟨b, hb, hp, h⟩
+      · cases h
+    · right
+      split at h
       · cases h
       · split at h
         · rename_i hb; exact ⟨by assumption, by assumption, hb.1, hb.2, h⟩
         · cases h
 
 /-- OS-thread level: if no thread is enabled, every agent is done and every thread has finished -/
-theorem threads_stuck_done (h : Inv c s) (hL : LInv c s) (hstuck : ∀ t, enabled s t = false) :
+theorem threads_stuck_done (hwf : c.WFT) (h : Inv c s) (hT : TInv c s) (hL : LInv c s)
+    (hstuck : ∀ t, enabled s t = false) :
     (∀ a, s.pc a = Pc.done) ∧ ∀ t, s.tmain t = TMain.finished := by
-  have hen := fun t (htm : s.tmain t ≠ TMain.finished) => enabled_false (hstuck t) htm
+  have hen : ∀ t, s.tmain t ≠ TMain.finished →
+      s.cur t = none ∧ s.rq t = [] ∧ s.pc t = Pc.blocked ∧ s.tmain t = TMain.syncBody ∧ s.flag t = false := by
+    intro t htm
+    rcases enabled_false (hstuck t) htm with ⟨b, hb, hp, _⟩ | h2
+    · exfalso
+      have h1 := hT.curK t b hb
+      have h2 := h.kindW' hwf (Or.inr hp)
+      rw [h1] at h2; cases h2
+    · exact h2
   have hcan : ∀ a, canRun s a = false := by
     intro a
     apply Classical.byContradiction
@@ -1481,8 +1924,8 @@ instance decTGuarded (c : Cfg) (fuel : Nat) : (s : State) → (ts : List Nat) 
 /-- one blocking contender (agent 0) and two coroutines (1: awaited release; 2: discarded release, then a `try_lock`) -/
 def cfgEx : Cfg :=
   { n := 3, kind := fun i => if i = 0 then AKind.sync else AKind.coro,
-    rounds := fun i => if i = 0 then [⟨Flavour.lock, Rel.x⟩] else if i = 1 then [⟨Flavour.co, Rel.a⟩]
-                       else if i = 2 then [⟨Flavour.co, Rel.x⟩, ⟨Flavour.try_, Rel.d⟩] else [] }
+    rounds := fun i => if i = 0 then [{ fl := Flavour.lock, rel := Rel.x }] else if i = 1 then [{ fl := Flavour.co, rel := Rel.a }]
+                       else if i = 2 then [{ fl := Flavour.co, rel := Rel.x }, { fl := Flavour.try_, rel := Rel.d }] else [] }
 
 theorem cfgEx_wf : cfgEx.WF := by
   intro a r hr hfl
@@ -1514,7 +1957,7 @@ theorem reachable_of_run (c : Cfg) (l : List (Nat × Nat)) (h : Guarded c (init 
 /-- two blocking contenders and one `try_lock`er -/
 def cfgSy : Cfg :=
   { n := 3, kind := fun _ => AKind.sync,
-    rounds := fun i => if i = 2 then [⟨Flavour.try_, Rel.x⟩] else if i < 2 then [⟨Flavour.lock, Rel.d⟩] else [] }
+    rounds := fun i => if i = 2 then [{ fl := Flavour.try_, rel := Rel.x }] else if i < 2 then [{ fl := Flavour.lock, rel := Rel.d }] else [] }
 
 theorem cfgSy_wf : cfgSy.WF := by
   intro a r hr hfl
@@ -1528,6 +1971,46 @@ theorem cfgSy_wf : cfgSy.WF := by
 def runS : List (Nat × Nat) := [(0,0), (1,1), (1,1), (1,1), (1,1), (1,1), (2,2), (2,2)]
 
 def sS : State := arun cfgSy (init cfgSy) runS
+
+theorem cfgEx_wft : cfgEx.WFT := by
+  refine ⟨cfgEx_wf, ?_⟩
+  intro a r hr hk
+  by_cases h0 : a = 0
+  · subst h0; simp [cfgEx] at hk
+  · by_cases h1 : a = 1
+    · subst h1; simp [cfgEx] at hr; subst hr; exact Or.inl rfl
+    · by_cases h2 : a = 2
+      · subst h2; simp [cfgEx] at hr; rcases hr with rfl | rfl
+        · exact Or.inl rfl
+        · exact Or.inr rfl
+      · simp [cfgEx, h0, h1, h2] at hr
+
+/-- ownership-object scenario: 0 blocking lock, ownership kept in the shared slot, `release()`; 1 callback contender,
+    shared slot, given up by assigning an empty ownership; 2 a coroutine whose helper function takes a blocking lock
+    (the OS thread blocks), ownership moved into a temporary; 3 a coroutine, `co_await lock()`, hand-over-hand
+    assignment of the ownership of its auxiliary mutex -/
+def cfgOw : Cfg :=
+  { n := 4, kind := fun i => if i < 2 then AKind.sync else AKind.coro,
+    rounds := fun i => if i = 0 then [{ fl := Flavour.lock, rel := Rel.x, shared := true }]
+                       else if i = 1 then [{ fl := Flavour.cb, rel := Rel.d, shared := true }]
+                       else if i = 2 then [{ fl := Flavour.lock, rel := Rel.m }]
+                       else if i = 3 then [{ fl := Flavour.co, rel := Rel.g }] else [] }
+
+/-- 0 takes the lock, stores its ownership into the shared slot (object 4) and is inside its critical section;
+    1 (callback), 2 (blocking lock inside a coroutine) and 3 (`co_await`) publish behind it -/
+def runO1 : List (Nat × Nat) := [(0,0),(0,0), (1,1),(1,1),(1,1),(1,1), (2,2),(2,2),(2,2),(2,2), (3,3),(3,3),(3,3)]
+/-- … 0 releases through the slot: fast path fails, queue rebuilt, hand-over to 1 whose callback stores 1's ownership
+    into the same slot inside 0's `unlock` -/
+def runO2 : List (Nat × Nat) := runO1 ++ [(0,0),(0,0),(0,0)]
+/-- … 1 assigns an empty ownership over the slot (hand-over to 2 by its flag), 2 moves its ownership into a temporary
+    (hand-over to coroutine 3), 3 locks its auxiliary mutex and assigns it over its ownership -/
+def runO3 : List (Nat × Nat) := runO2 ++ [(0,0),(0,0), (1,1),(1,1),(1,1),(1,1),(1,1), (2,2),(2,2),(2,2),(2,2),(2,2), (3,3),(3,3)]
+/-- … and everything is given up -/
+def runOZ : List (Nat × Nat) := runO3 ++ [(3,3),(3,3),(3,3)]
+def sO1 : State := arun cfgOw (init cfgOw) runO1
+def sO2 : State := arun cfgOw (init cfgOw) runO2
+def sO3 : State := arun cfgOw (init cfgOw) runO3
+def sOZ : State := arun cfgOw (init cfgOw) runOZ
 
 /-- the schedule of OS threads that produces `runB` (thread 0 runs the hand-over), and its completion -/
 def schedB : List Nat := [0, 1, 1, 1, 2, 2, 2, 0, 0, 0, 0]
